@@ -4,16 +4,1758 @@ From LW Require Import Base.Sx Base.Num Base.Sums Base.Mat Base.Embed Model.Circ
      Model.Rewrite Proofs.CompileP.
 Import ListNotations.
 
+(* ====================================================================== *)
+(* Part 1: permutation matrices over an abstract commutative *-ring       *)
+(* ====================================================================== *)
+Section PermGeneric.
+  Context {K : Type} {o : ops K} {SR : StarRing o}.
+  Let R := sr_ring (o:=o).
+  Add Ring Kr : R.
+  Local Notation "0" := (k0 o).
+  Local Notation "1" := (k1 o).
+  Local Notation "a + b" := (kadd o a b).
+  Local Notation "a * b" := (kmul o a b).
+  Local Notation sumn := (sumn o).
+  Local Notation mmul := (mmul o).
+  Local Notation mid := (mid o).
+  Local Notation meq := (@meq K).
+  Local Notation mat := (@mat K).
+
+  (* p and q are mutually inverse bijections of [0,n) *)
+  Definition bij (n : nat) (p q : nat -> nat) : Prop :=
+    (forall i, i < n -> p i < n) /\ (forall i, i < n -> q i < n) /\
+    (forall i, i < n -> q (p i) = i) /\ (forall i, i < n -> p (q i) = i).
+
+  Lemma bij_sym n p q : bij n p q -> bij n q p.
+  Proof. intros (H1 & H2 & H3 & H4). repeat split; assumption. Qed.
+
+  Lemma bij_inj n p q a b : bij n p q -> a < n -> b < n -> p a = p b -> a = b.
+  Proof. intros (_ & _ & H & _) Ha Hb E. rewrite <- (H a), <- (H b), E by assumption. reflexivity. Qed.
+
+  Lemma perm_mul_l n p q (A : mat) :
+    bij n p q -> meq n (mmul n (perm_mat o p) A) (fun i j => A (q i) j).
+  Proof.
+    intros (Hp & Hq & Hqp & Hpq) i j Hi Hj. unfold Mat.mmul.
+    rewrite (sumn_single n (q i)).
+    - unfold perm_mat. rewrite Hpq by assumption. rewrite Nat.eqb_refl. ring.
+    - apply Hq; assumption.
+    - intros k Hk Hne. unfold perm_mat. replace (i =? p k) with false; [ring|].
+      symmetry. apply Nat.eqb_neq. intros E. apply Hne. rewrite E, Hqp; auto.
+  Qed.
+
+  Lemma perm_mul_r n p (A : mat) :
+    (forall i, i < n -> p i < n) -> meq n (mmul n A (perm_mat o p)) (fun i j => A i (p j)).
+  Proof.
+    intros Hp i j Hi Hj. unfold Mat.mmul. rewrite (sumn_single n (p j)).
+    - unfold perm_mat. rewrite Nat.eqb_refl. ring.
+    - apply Hp; assumption.
+    - intros k Hk Hne. unfold perm_mat. apply Nat.eqb_neq in Hne. rewrite Hne. ring.
+  Qed.
+
+  (* product of permutation matrices = matrix of the composition *)
+  Lemma perm_mat_comp n p1 p2 :
+    (forall i, i < n -> p1 i < n) ->
+    meq n (mmul n (perm_mat o p2) (perm_mat o p1)) (perm_mat o (fun i => p2 (p1 i))).
+  Proof.
+    intros H1. eapply meq_trans; [apply perm_mul_r; exact H1|]. intros i j _ _. reflexivity.
+  Qed.
+
+  Lemma perm_mat_ext n p p' : (forall i, i < n -> p i = p' i) -> meq n (perm_mat o p) (perm_mat o p').
+  Proof. intros H i j _ Hj. unfold perm_mat. rewrite H by assumption. reflexivity. Qed.
+
+  (* Q A P  relabels the matrix: (Q A P)[i,j] = A[p i, p j] *)
+  Lemma perm_conj n p q (A : mat) :
+    bij n p q ->
+    meq n (mmul n (perm_mat o q) (mmul n A (perm_mat o p))) (fun i j => A (p i) (p j)).
+  Proof.
+    intros Hb. eapply meq_trans; [apply (perm_mul_l n q p); apply bij_sym; exact Hb|].
+    intros i j Hi Hj. destruct Hb as (Hp & _). apply perm_mul_r; auto.
+  Qed.
+
+  (* a matrix that is the identity outside the index set S *)
+  Definition id_off (S : nat -> bool) (A : mat) : Prop :=
+    forall i j, S i = false \/ S j = false -> A i j = mid i j.
+
+  (* "a permutation supported off a component's modes commutes with it" *)
+  Lemma perm_commute_off n p q S (A : mat) :
+    bij n p q -> id_off S A -> (forall i, S i = true -> p i = i) ->
+    meq n (mmul n (perm_mat o p) A) (mmul n A (perm_mat o p)).
+  Proof.
+    intros Hb Hoff Hfix.
+    eapply meq_trans; [apply (perm_mul_l n p q); exact Hb|].
+    apply meq_sym. eapply meq_trans; [apply perm_mul_r; apply Hb|]. apply meq_sym.
+    pose proof Hb as (Hp & Hq & Hqp & Hpq).
+    intros i j Hi Hj.
+    assert (Hqfix : forall x, x < n -> S x = true -> q x = x).
+    { intros x Hx Hs. rewrite <- (Hfix x Hs) at 1. apply Hqp. exact Hx. }
+    assert (HpS : forall x, x < n -> S x = false -> S (p x) = false).
+    { intros x Hx Hs. destruct (S (p x)) eqn:E; [|reflexivity].
+      assert (p x = x) by (apply (bij_inj n p q); auto; apply Hfix; exact E).
+      congruence. }
+    assert (HqS : forall x, x < n -> S x = false -> S (q x) = false).
+    { intros x Hx Hs. destruct (S (q x)) eqn:E; [|reflexivity].
+      assert (p (q x) = q x) by (apply Hfix; exact E). rewrite Hpq in H by assumption. congruence. }
+    destruct (S i) eqn:Si.
+    - rewrite (Hqfix i Hi Si). destruct (S j) eqn:Sj.
+      + rewrite (Hfix j Sj). reflexivity.
+      + rewrite (Hoff i j) by (right; exact Sj).
+        rewrite (Hoff i (p j)) by (right; apply HpS; assumption).
+        unfold Mat.mid.
+        replace (i =? j) with false by (symmetry; apply Nat.eqb_neq; intros ->; congruence).
+        replace (i =? p j) with false; [reflexivity|].
+        symmetry. apply Nat.eqb_neq. intros E. specialize (HpS j Hj Sj). rewrite <- E in HpS. congruence.
+    - rewrite (Hoff (q i) j) by (left; apply HqS; assumption).
+      rewrite (Hoff i (p j)) by (left; exact Si).
+      unfold Mat.mid.
+      destruct (Nat.eqb_spec (q i) j) as [E|E], (Nat.eqb_spec i (p j)) as [E'|E']; try reflexivity.
+      + exfalso. apply E'. rewrite <- E, Hpq; auto.
+      + exfalso. apply E. rewrite E', Hqp; auto.
+  Qed.
+
+  (* ---- the elementary embeddings are the identity off their modes ---- *)
+  Lemma id_off_embed2 a b u00 u01 u10 u11 :
+    id_off (fun i => (i =? a) || (i =? b)) (embed2 o a b u00 u01 u10 u11).
+  Proof.
+    intros i j [H|H]; apply orb_false_iff in H as [H1 H2]; apply Nat.eqb_neq in H1, H2.
+    - apply embed2_out_l; assumption.
+    - apply embed2_out_r; assumption.
+  Qed.
+
+  Lemma id_off_phase a e : id_off (fun i => i =? a) (phase_mat o a e).
+  Proof.
+    intros i j H. unfold phase_mat, Mat.mid.
+    destruct (Nat.eqb_spec i j) as [->|Hne]; [|reflexivity].
+    destruct H as [H|H]; rewrite H; reflexivity.
+  Qed.
+
+  Lemma id_off_block m k V :
+    id_off (fun i => (m <=? i) && (i <? m + k)) (block_mat o m k V).
+  Proof.
+    intros i j [H|H].
+    - apply block_out_l. apply andb_false_iff in H as [H|H];
+        [apply Nat.leb_gt in H; lia|apply Nat.ltb_ge in H; lia].
+    - apply block_out_r. apply andb_false_iff in H as [H|H];
+        [apply Nat.leb_gt in H; lia|apply Nat.ltb_ge in H; lia].
+  Qed.
+
+  Lemma id_off_perm S p :
+    (forall j, S j = false -> p j = j) -> (forall j, S j = true -> S (p j) = true) ->
+    id_off S (perm_mat o p).
+  Proof.
+    intros Hout Hin i j H. unfold perm_mat, Mat.mid.
+    destruct (S j) eqn:Sj.
+    - destruct H as [Si|]; [|discriminate]. specialize (Hin j Sj).
+      replace (i =? p j) with false by (symmetry; apply Nat.eqb_neq; intros ->; congruence).
+      replace (i =? j) with false by (symmetry; apply Nat.eqb_neq; intros ->; congruence).
+      reflexivity.
+    - rewrite (Hout j Sj). reflexivity.
+  Qed.
+
+  Lemma id_off_weaken (S S' : nat -> bool) A :
+    (forall i, S i = true -> S' i = true) -> id_off S A -> id_off S' A.
+  Proof.
+    intros Hw Hoff i j H. apply Hoff.
+    destruct H as [H|H]; [left|right]; (destruct (S _) eqn:E; [apply Hw in E; congruence|reflexivity]).
+  Qed.
+
+  (* relabelling a 2x2 embedding *)
+  Lemma embed2_relabel n p q a b u00 u01 u10 u11 :
+    bij n p q -> a < n -> b < n ->
+    meq n (fun i j => embed2 o a b u00 u01 u10 u11 (p i) (p j)) (embed2 o (q a) (q b) u00 u01 u10 u11).
+  Proof.
+    intros (Hp & Hq & Hqp & Hpq) Ha Hb i j Hi Hj.
+    assert (E : forall x c, x < n -> c < n -> (p x =? c) = (x =? q c)).
+    { intros x c Hx Hc. destruct (Nat.eqb_spec (p x) c) as [E|E], (Nat.eqb_spec x (q c)) as [E'|E']; try reflexivity.
+      - exfalso. apply E'. rewrite <- E, Hqp; auto.
+      - exfalso. apply E. rewrite E', Hpq; auto. }
+    unfold embed2. rewrite !E by assumption.
+    unfold Mat.mid.
+    assert (Em : (p i =? p j) = (i =? j)).
+    { destruct (Nat.eqb_spec (p i) (p j)) as [E1|E1], (Nat.eqb_spec i j) as [E2|E2]; try reflexivity.
+      - exfalso. apply E2. rewrite <- (Hqp i), <- (Hqp j), E1; auto.
+      - exfalso. apply E1. congruence. }
+    rewrite Em. reflexivity.
+  Qed.
+
+  (* tab is invisible; two compile steps in a row *)
+  Lemma tab2 n (A B U : mat) :
+    meq n (tab o n (mmul n A (tab o n (mmul n B U)))) (mmul n (mmul n A B) U).
+  Proof.
+    eapply meq_trans; [apply tab_spec|].
+    eapply meq_trans; [apply mmul_compat; [apply meq_refl|apply tab_spec]|].
+    intros i j _ _. symmetry. apply mmul_assoc.
+  Qed.
+
+  Lemma tab_mmul_compat n (A A' U U' : mat) :
+    meq n A A' -> meq n U U' -> meq n (tab o n (mmul n A U)) (tab o n (mmul n A' U')).
+  Proof.
+    intros HA HU. eapply meq_trans; [apply tab_spec|]. apply meq_sym.
+    eapply meq_trans; [apply tab_spec|]. apply meq_sym. apply mmul_compat; assumption.
+  Qed.
+
+  Lemma pad_compat n (U U' : mat) : meq n U U' -> meq (S n) (pad o n U) (pad o n U').
+  Proof.
+    intros H i j _ _. unfold pad.
+    destruct (i <? n) eqn:Ei, (j <? n) eqn:Ej; simpl; try reflexivity.
+    apply H; apply Nat.ltb_lt; assumption.
+  Qed.
+
+  (* a permutation that fixes the new mode n commutes with padding *)
+  Lemma pad_perm n p q (U : mat) :
+    bij n p q -> p n = n -> q n = n ->
+    meq (S n) (pad o n (tab o n (mmul n (perm_mat o p) U))) (mmul (S n) (perm_mat o p) (pad o n U)).
+  Proof.
+    intros Hb Hpn Hqn.
+    assert (Hb' : bij (S n) p q).
+    { destruct Hb as (Hp & Hq & Hqp & Hpq). repeat split; intros i Hi;
+        (destruct (Nat.eq_dec i n) as [->|Hne]; [rewrite ?Hpn, ?Hqn; auto; lia|]);
+        [specialize (Hp i ltac:(lia)); lia|specialize (Hq i ltac:(lia)); lia|apply Hqp; lia|apply Hpq; lia]. }
+    apply meq_sym. eapply meq_trans; [apply (perm_mul_l (S n) p q); exact Hb'|].
+    intros i j Hi Hj. unfold pad.
+    destruct (Nat.eq_dec i n) as [->|Hin].
+    - rewrite Hqn. rewrite Nat.ltb_irrefl. simpl. reflexivity.
+    - assert (Hi' : i < n) by lia. destruct Hb as (Hp & Hq & Hqp & Hpq).
+      pose proof (Hq i Hi') as Hqi.
+      replace (q i <? n) with true by (symmetry; apply Nat.ltb_lt; exact Hqi).
+      replace (i <? n) with true by (symmetry; apply Nat.ltb_lt; exact Hi').
+      destruct (j <? n) eqn:Ej; simpl.
+      + apply Nat.ltb_lt in Ej. rewrite tab_spec by assumption.
+        symmetry. apply (perm_mul_l n p q); [repeat split; assumption|assumption|assumption].
+      + apply Nat.ltb_ge in Ej. unfold Mat.mid.
+        replace (q i =? j) with false by (symmetry; apply Nat.eqb_neq; lia).
+        replace (i =? j) with false by (symmetry; apply Nat.eqb_neq; lia). reflexivity.
+  Qed.
+End PermGeneric.
+
+(* ====================================================================== *)
+(* Part 2: compiled circuits up to equality of the matrix on [0,n)        *)
+(* ====================================================================== *)
 Section RewriteP.
   Context {K : Type} {o : ops K} {SRK : StarRing o}.
+  Notation T := (@T K).
+  Notation co := (co o).
   Notation comp := (@comp K).
   Notation circ := (@circ K).
+  Notation mat := (@mat T).
+  Notation cstate := (@cstate K).
+  Notation cadd := (cadd o).
+  Notation cadd_list := (cadd_list o).
 
-  Lemma unpack_cadd_list e (sp : list comp) st :
-    cadd_list o e (unpack_spec sp) st = cadd_list o e sp st.
+  (* same dimension and same matrix entries inside the dimension, or the same error *)
+  Definition steq (s s' : res cstate) : Prop :=
+    match s, s' with
+    | Ok (n, U), Ok (n', U') => n = n' /\ meq n U U'
+    | Err x, Err y => x = y
+    | _, _ => False
+    end.
+
+  Lemma steq_refl s : steq s s.
+  Proof. destruct s as [[n U]|x]; simpl; [split; [reflexivity|apply meq_refl]|reflexivity]. Qed.
+  Lemma steq_sym s s' : steq s s' -> steq s' s.
+  Proof.
+    destruct s as [[n U]|x], s' as [[n' U']|x']; simpl; try contradiction.
+    - intros [-> H]. split; [reflexivity|apply meq_sym; exact H].
+    - congruence.
+  Qed.
+  Lemma steq_trans s1 s2 s3 : steq s1 s2 -> steq s2 s3 -> steq s1 s3.
+  Proof.
+    destruct s1 as [[n1 U1]|x1], s2 as [[n2 U2]|x2], s3 as [[n3 U3]|x3]; simpl; try contradiction.
+    - intros [-> H1] [-> H2]. split; [reflexivity|eapply meq_trans; eassumption].
+    - congruence.
+  Qed.
+  Lemma steq_eq s s' : s = s' -> steq s s'.
+  Proof. intros ->. apply steq_refl. Qed.
+
+  Lemma cadd_list_steq_aux e (sp : list comp) :
+    Forall (fun c => forall s s', steq s s' -> steq (cadd e c s) (cadd e c s')) sp ->
+    forall s s', steq s s' -> steq (cadd_list e sp s) (cadd_list e sp s').
+  Proof.
+    induction 1 as [|c sp Hc _ IH]; intros s s' H; [exact H|].
+    rewrite !cadd_list_cons. apply IH, Hc, H.
+  Qed.
+
+  (* compiling one more component respects the equivalence *)
+  Lemma cadd_steq e c : forall s s', steq s s' -> steq (cadd e c s) (cadd e c s').
+  Proof.
+    induction c as [m1 m2 v cv|m v|m v|ms|sw|m k V|sp m1 m2 hin hout IH] using comp_ind';
+      intros s s' H.
+    7:{ rewrite !cadd_group. apply cadd_list_steq_aux; assumption. }
+    all: destruct s as [[n U]|x], s' as [[n' U']|x']; simpl in H; try contradiction;
+      try (subst; reflexivity); destruct H as [<- HU]; simpl.
+    - destruct (in01 o (t1 (getv e v))); [|reflexivity]. simpl. split; [reflexivity|].
+      apply tab_mmul_compat; [apply meq_refl|exact HU].
+    - split; [reflexivity|]. apply tab_mmul_compat; [apply meq_refl|exact HU].
+    - destruct (in01 o (t1 (getv e v))); [|reflexivity]. simpl. split; [reflexivity|].
+      apply tab_mmul_compat; [apply meq_refl|apply pad_compat; exact HU].
+    - split; [reflexivity|exact HU].
+    - split; [reflexivity|]. apply tab_mmul_compat; [apply meq_refl|exact HU].
+    - split; [reflexivity|]. apply tab_mmul_compat; [apply meq_refl|exact HU].
+  Qed.
+
+  Lemma cadd_list_steq e sp s s' : steq s s' -> steq (cadd_list e sp s) (cadd_list e sp s').
+  Proof. apply cadd_list_steq_aux. apply Forall_forall. intros c _. apply cadd_steq. Qed.
+
+  (* the state has at least N modes *)
+  Definition dim_ge (N : nat) (s : res cstate) : Prop :=
+    match s with Ok (n, _) => N <= n | Err _ => True end.
+
+  Lemma cadd_dim_ge e N c s : dim_ge N s -> dim_ge N (cadd e c s).
+  Proof.
+    destruct s as [[n U]|x]; [|rewrite cadd_err; trivial]. intros H. simpl in H.
+    match goal with |- dim_ge _ ?t => destruct t as [[n' U']|y] eqn:E end; [|exact I].
+    apply cadd_dim in E. simpl. lia.
+  Qed.
+  Lemma cadd_list_dim_ge e N sp s : dim_ge N s -> dim_ge N (cadd_list e sp s).
+  Proof. revert s. induction sp as [|c sp IH]; intros s H; [exact H|]. rewrite cadd_list_cons. apply IH, cadd_dim_ge, H. Qed.
+
+  (* two component lists denote the same transformation on every state with >= N modes *)
+  Definition speq (e : env (K:=K)) (N : nat) (sp sp' : list comp) : Prop :=
+    forall s, dim_ge N s -> steq (cadd_list e sp s) (cadd_list e sp' s).
+
+  Lemma speq_refl e N sp : speq e N sp sp.
+  Proof. intros s _. apply steq_refl. Qed.
+  Lemma speq_sym e N a b : speq e N a b -> speq e N b a.
+  Proof. intros H s Hs. apply steq_sym, H, Hs. Qed.
+  Lemma speq_trans e N a b c : speq e N a b -> speq e N b c -> speq e N a c.
+  Proof. intros H1 H2 s Hs. eapply steq_trans; [apply H1|apply H2]; exact Hs. Qed.
+  Lemma speq_app_r e N a a' b : speq e N a a' -> speq e N (a ++ b) (a' ++ b).
+  Proof. intros H s Hs. rewrite !cadd_list_app. apply cadd_list_steq, H, Hs. Qed.
+  Lemma speq_app_l e N a b b' : speq e N b b' -> speq e N (a ++ b) (a ++ b').
+  Proof. intros H s Hs. rewrite !cadd_list_app. apply H, cadd_list_dim_ge, Hs. Qed.
+  Lemma speq_app e N a a' b b' : speq e N a a' -> speq e N b b' -> speq e N (a ++ b) (a' ++ b').
+  Proof. intros H1 H2. eapply speq_trans; [apply speq_app_r, H1|apply speq_app_l, H2]. Qed.
+  Lemma speq_cons e N c b b' : speq e N b b' -> speq e N (c :: b) (c :: b').
+  Proof. apply (speq_app_l e N [c]). Qed.
+
+  (* ---- permutations of the circuit modes [0,N), identity above ---- *)
+  Definition perm_on (N : nat) (p : nat -> nat) : Prop :=
+    exists q, bij N p q /\ (forall i, N <= i -> p i = i) /\ (forall i, N <= i -> q i = i).
+
+  Lemma perm_on_bij N n p : perm_on N p -> N <= n ->
+    exists q, bij n p q /\ (forall i, N <= i -> p i = i) /\ (forall i, N <= i -> q i = i).
+  Proof.
+    intros (q & (Hp & Hq & Hqp & Hpq) & Hpo & Hqo) Hle. exists q. split; [|split; assumption].
+    repeat split; intros i Hi; destruct (le_lt_dec N i) as [Hge|Hlt].
+    - rewrite Hpo by assumption. exact Hi.
+    - specialize (Hp i Hlt). lia.
+    - rewrite Hqo by assumption. exact Hi.
+    - specialize (Hq i Hlt). lia.
+    - rewrite (Hpo i Hge). apply Hqo, Hge.
+    - apply Hqp, Hlt.
+    - rewrite (Hqo i Hge). apply Hpo, Hge.
+    - apply Hpq, Hlt.
+  Qed.
+
+  Lemma perm_on_comp N p1 p2 : perm_on N p1 -> perm_on N p2 -> perm_on N (fun i => p2 (p1 i)).
+  Proof.
+    intros (q1 & (Hp1 & Hq1 & Hqp1 & Hpq1) & Hpo1 & Hqo1) (q2 & (Hp2 & Hq2 & Hqp2 & Hpq2) & Hpo2 & Hqo2).
+    exists (fun i => q1 (q2 i)). repeat split; intros i Hi.
+    - apply Hp2, Hp1, Hi.
+    - apply Hq1, Hq2, Hi.
+    - rewrite Hqp2 by (apply Hp1, Hi). apply Hqp1, Hi.
+    - rewrite Hpq1 by (apply Hq2, Hi). apply Hpq2, Hi.
+    - rewrite (Hpo1 i Hi). apply Hpo2, Hi.
+    - rewrite (Hqo2 i Hi). apply Hqo1, Hi.
+  Qed.
+
+  Lemma perm_on_ext N p p' : (forall i, p i = p' i) -> perm_on N p -> perm_on N p'.
+  Proof.
+    intros E (q & (Hp & Hq & Hqp & Hpq) & Hpo & Hqo). exists q.
+    repeat split; intros i Hi; rewrite <- ?E; auto.
+  Qed.
+
+  Lemma perm_on_inj N p a b : perm_on N p -> p a = p b -> a = b.
+  Proof.
+    intros (q & (Hp & Hq & Hqp & Hpq) & Hpo & Hqo) E.
+    destruct (le_lt_dec N a) as [Ha|Ha], (le_lt_dec N b) as [Hb|Hb].
+    - rewrite (Hpo a Ha), (Hpo b Hb) in E. exact E.
+    - rewrite (Hpo a Ha) in E. specialize (Hp b Hb). lia.
+    - rewrite (Hpo b Hb) in E. specialize (Hp a Ha). lia.
+    - rewrite <- (Hqp a Ha), <- (Hqp b Hb), E. reflexivity.
+  Qed.
+
+  Lemma perm_on_surj N p k : perm_on N p -> exists k', p k' = k.
+  Proof.
+    intros (q & (Hp & Hq & Hqp & Hpq) & Hpo & Hqo).
+    destruct (le_lt_dec N k) as [Hk|Hk]; [exists k; apply Hpo, Hk|exists (q k); apply Hpq, Hk].
+  Qed.
+
+  Lemma perm_on_id N : perm_on N (fun i => i).
+  Proof. exists (fun i => i). repeat split; auto. Qed.
+
+  (* ---- swap dictionaries ---- *)
+  Lemma memb_In x l : memb x l = true <-> In x l.
+  Proof.
+    unfold memb. rewrite existsb_exists. split.
+    - intros (y & Hy & E). apply Nat.eqb_eq in E. subst. exact Hy.
+    - intros H. exists x. split; [exact H|apply Nat.eqb_refl].
+  Qed.
+  Lemma memb_false x l : memb x l = false <-> ~ In x l.
+  Proof. rewrite <- memb_In. destruct (memb x l); split; congruence. Qed.
+
+  Lemma swap_fun_notin sw k : ~ In k (dkeys sw) -> swap_fun sw k = k.
+  Proof. intros H. unfold swap_fun. apply dget_none in H. rewrite H. reflexivity. Qed.
+
+  Lemma swap_fun_in sw k : In k (dkeys sw) -> dget sw k = Some (swap_fun sw k).
+  Proof.
+    intros H. unfold swap_fun. destruct (dget sw k) eqn:E; [reflexivity|].
+    apply dget_none in E. contradiction.
+  Qed.
+
+  Lemma wf_swaps_perm_on N sw : wf_swaps N sw -> perm_on N (swap_fun sw).
+  Proof.
+    intros (Hk & Hv & Hkv & Hr). exists (swap_fun (inv_dict sw)).
+    assert (Hkv' : forall k, In k (dkeys (inv_dict sw)) <-> In k (dvals (inv_dict sw))).
+    { intros k. rewrite inv_dict_keys, inv_dict_vals. symmetry. apply Hkv. }
+    assert (Hr' : forall k, In k (dkeys (inv_dict sw)) -> k < N).
+    { intros k. rewrite inv_dict_keys. intros Hin. apply Hr, Hkv, Hin. }
+    repeat split.
+    - intros i Hi. apply swap_fun_range; assumption.
+    - intros i Hi. apply swap_fun_range; assumption.
+    - intros i _. apply swap_inv_l; assumption.
+    - intros i _. replace sw with (inv_dict (inv_dict sw)) at 1.
+      + apply swap_inv_l; rewrite ?inv_dict_keys, ?inv_dict_vals; try assumption.
+        intros k. symmetry. apply Hkv.
+      + unfold inv_dict. rewrite map_map. rewrite <- (map_id sw) at 2. apply map_ext. intros [a b]; reflexivity.
+    - intros i Hi. apply swap_fun_notin. intros Hin. specialize (Hr i Hin). lia.
+    - intros i Hi. apply swap_fun_notin. intros Hin. specialize (Hr' i Hin). lia.
+  Qed.
+
+  (* ---- the modes a component acts on ---- *)
+  Fixpoint cmodes (c : comp) : list nat :=
+    match c with
+    | BS m1 m2 _ _ => [m1; m2]
+    | PS m _ => [m]
+    | LossC m _ => [m]
+    | Barrier _ => []
+    | Swaps sw => dkeys sw
+    | UMat m k _ => seq m k
+    | Group sp _ _ _ _ => flat_map cmodes sp
+    end.
+
+  (* what the rewrites need of a component: beam splitter modes distinct and inside the circuit,
+     swap dictionaries denote permutations of [0,N) whose keys are closed under the swap,
+     the components of a group act inside the span the group records *)
+  Definition swaps_ok (N : nat) (sw : dict) : Prop :=
+    perm_on N (swap_fun sw) /\ forall k, In k (dkeys sw) -> k < N /\ In (swap_fun sw k) (dkeys sw).
+
+  Inductive rok (N : nat) : comp -> Prop :=
+  | rok_bs m1 m2 v cv : m1 < N -> m2 < N -> m1 <> m2 -> rok N (BS m1 m2 v cv)
+  | rok_ps m v : rok N (PS m v)
+  | rok_loss m v : rok N (LossC m v)
+  | rok_bar ms : rok N (Barrier ms)
+  | rok_sw sw : swaps_ok N sw -> rok N (Swaps sw)
+  | rok_u m k V : rok N (UMat m k V)
+  | rok_group sp m1 m2 hin hout :
+      Forall (rok N) sp -> (forall m, In m (flat_map cmodes sp) -> m1 <= m <= m2) ->
+      rok N (Group sp m1 m2 hin hout).
+
+  Lemma wf_swaps_ok N sw : wf_swaps N sw -> swaps_ok N sw.
+  Proof.
+    intros H. split; [apply wf_swaps_perm_on, H|]. destruct H as (Hk & Hv & Hkv & Hr).
+    intros k Hin. split; [apply Hr, Hin|]. apply Hkv.
+    pose proof (swap_fun_in sw k Hin) as E. apply dget_some in E.
+    unfold dvals. apply in_map_iff. exists (k, swap_fun sw k). split; [reflexivity|exact E].
+  Qed.
+
+  (* ---- commutation of a swap with a component it does not touch ---- *)
+  Lemma commute_step n (A P U : mat) :
+    meq n (mmul co n P A) (mmul co n A P) ->
+    meq n (tab co n (mmul co n A (tab co n (mmul co n P U))))
+          (tab co n (mmul co n P (tab co n (mmul co n A U)))).
+  Proof.
+    intros H. eapply meq_trans; [apply tab2|]. apply meq_sym.
+    eapply meq_trans; [apply tab2|]. apply mmul_compat; [exact H|apply meq_refl].
+  Qed.
+
+  Lemma swap_commute_list_aux e N sw (sp : list comp) :
+    Forall (fun c => forall st, dim_ge N st ->
+              steq (cadd e c (cadd e (Swaps sw) st)) (cadd e (Swaps sw) (cadd e c st))) sp ->
+    forall st, dim_ge N st ->
+      steq (cadd_list e sp (cadd e (Swaps sw) st)) (cadd e (Swaps sw) (cadd_list e sp st)).
+  Proof.
+    induction 1 as [|c sp Hc _ IH]; intros st Hst; [apply steq_refl|].
+    rewrite !cadd_list_cons.
+    eapply steq_trans; [apply cadd_list_steq, Hc, Hst|]. apply IH, cadd_dim_ge, Hst.
+  Qed.
+
+  Lemma swap_commute e N sw c :
+    rok N c -> perm_on N (swap_fun sw) -> (forall m, In m (cmodes c) -> ~ In m (dkeys sw)) ->
+    forall st, dim_ge N st ->
+      steq (cadd e c (cadd e (Swaps sw) st)) (cadd e (Swaps sw) (cadd e c st)).
+  Proof.
+    intros Hok Hperm. revert Hok.
+    induction c as [m1 m2 v cv|m v|m v|ms|sw2|m k V|sp m1 m2 hin hout IH] using comp_ind';
+      intros Hok Hdis st Hst.
+    7:{ rewrite !cadd_group. apply (swap_commute_list_aux e N); [|exact Hst].
+        inversion Hok; subst. rewrite Forall_forall in *. intros x Hx. apply IH; [exact Hx|auto|].
+        intros m Hm. apply Hdis. simpl. apply in_flat_map. exists x. split; assumption. }
+    all: destruct st as [[n U]|x]; [|rewrite !cadd_err; reflexivity]; simpl in Hst;
+      destruct (perm_on_bij N n _ Hperm Hst) as (q & Hb & Hpo & Hqo);
+      assert (Hfix : forall m, In m (cmodes _) -> swap_fun sw m = m)
+        by (intros m0 Hm0; apply swap_fun_notin, Hdis, Hm0).
+    - (* beam splitter *)
+      simpl. destruct (in01 o (t1 (getv e v))); [|reflexivity]. simpl. split; [reflexivity|].
+      apply commute_step. apply (perm_commute_off n _ q (fun i => (i =? m1) || (i =? m2))); [exact Hb| |].
+      + unfold bs_mat. destruct cv; apply id_off_embed2.
+      + intros i Hi. apply Hfix. simpl. apply orb_true_iff in Hi as [Hi|Hi]; apply Nat.eqb_eq in Hi; auto.
+    - (* phase shifter *)
+      simpl. split; [reflexivity|]. apply commute_step.
+      apply (perm_commute_off n _ q (fun i => i =? m)); [exact Hb|apply id_off_phase|].
+      intros i Hi. apply Hfix. simpl. apply Nat.eqb_eq in Hi. auto.
+    - (* loss: one more mode, fixed by the swap *)
+      simpl. destruct (in01 o (t1 (getv e v))); [|reflexivity]. simpl. split; [reflexivity|].
+      destruct (perm_on_bij N (S n) _ Hperm ltac:(lia)) as (q' & Hb' & _ & _).
+      set (P := swaps_mat o sw). set (L := loss_mat o (S n) m (getv e v)).
+      assert (HLP : meq (S n) (mmul co (S n) P L) (mmul co (S n) L P)).
+      { apply (perm_commute_off (S n) _ q' (fun i => (i =? m) || (i =? S n - 1))); [exact Hb'|apply id_off_embed2|].
+        intros i Hi. apply orb_true_iff in Hi as [Hi|Hi]; apply Nat.eqb_eq in Hi; subst i.
+        - apply Hfix. simpl. auto.
+        - apply Hpo. lia. }
+      eapply meq_trans; [apply tab_spec|].
+      eapply meq_trans; [apply mmul_compat; [apply meq_refl|apply (pad_perm n _ q); [exact Hb|apply Hpo; lia|apply Hqo; lia]]|].
+      eapply meq_trans; [intros i j _ _; symmetry; apply mmul_assoc|].
+      apply meq_sym. eapply meq_trans; [apply tab2|].
+      apply mmul_compat; [exact HLP|apply meq_refl].
+    - (* barrier *)
+      simpl. split; [reflexivity|apply meq_refl].
+    - (* another swap, on disjoint modes *)
+      simpl. split; [reflexivity|]. apply commute_step.
+      inversion Hok as [| | | |? [_ Hcl]| |]; subst.
+      apply (perm_commute_off n _ q (fun j => memb j (dkeys sw2))); [exact Hb| |].
+      + apply id_off_perm.
+        * intros j Hj. apply swap_fun_notin. apply memb_false. exact Hj.
+        * intros j Hj. apply memb_In. apply Hcl. apply memb_In. exact Hj.
+      + intros i Hi. apply Hfix. simpl. apply memb_In. exact Hi.
+    - (* unitary block *)
+      simpl. split; [reflexivity|]. apply commute_step.
+      apply (perm_commute_off n _ q (fun i => (m <=? i) && (i <? m + k))); [exact Hb|apply id_off_block|].
+      intros i Hi. apply Hfix. simpl. apply in_seq. apply andb_true_iff in Hi as [H1 H2].
+      apply Nat.leb_le in H1. apply Nat.ltb_lt in H2. lia.
+  Qed.
+
+  (* two consecutive swaps = one swap with the composed function *)
+  Lemma swaps_merge e N s1 s2 s12 :
+    perm_on N (swap_fun s1) -> (forall i, swap_fun s12 i = swap_fun s2 (swap_fun s1 i)) ->
+    forall st, dim_ge N st ->
+      steq (cadd e (Swaps s2) (cadd e (Swaps s1) st)) (cadd e (Swaps s12) st).
+  Proof.
+    intros Hperm Hc st Hst. destruct st as [[n U]|x]; [|reflexivity]. simpl in Hst.
+    destruct (perm_on_bij N n _ Hperm Hst) as (q & Hb & _ & _).
+    simpl. split; [reflexivity|]. eapply meq_trans; [apply tab2|]. apply meq_sym.
+    eapply meq_trans; [apply tab_spec|]. apply mmul_compat; [|apply meq_refl].
+    unfold swaps_mat. apply meq_sym. eapply meq_trans; [apply perm_mat_comp; apply Hb|].
+    apply perm_mat_ext. intros i _. symmetry. apply Hc.
+  Qed.
+
+  (* ====================================================================== *)
+  (* Part 3: combine_mode_swap_dicts                                        *)
+  (* ====================================================================== *)
+  Lemma dget_dset d k v k' : dget (dset d k v) k' = if k =? k' then Some v else dget d k'.
+  Proof.
+    induction d as [|[a b] d IH]; simpl.
+    - destruct (k =? k'); reflexivity.
+    - destruct (Nat.eqb_spec a k) as [->|Hne]; simpl.
+      + destruct (k =? k'); reflexivity.
+      + rewrite IH. destruct (Nat.eqb_spec a k') as [->|Hne']; [|reflexivity].
+        replace (k =? k') with false by (symmetry; apply Nat.eqb_neq; congruence). reflexivity.
+  Qed.
+
+  Lemma dset_keys d k v x : In x (dkeys (dset d k v)) <-> x = k \/ In x (dkeys d).
+  Proof.
+    induction d as [|[a b] d IH]; simpl; [intuition|].
+    destruct (Nat.eqb_spec a k) as [->|Hne]; simpl; [intuition|]. rewrite IH. intuition.
+  Qed.
+
+  Lemma dset_nodup d k v : NoDup (dkeys d) -> NoDup (dkeys (dset d k v)).
+  Proof.
+    induction d as [|[a b] d IH]; intros H; simpl.
+    - constructor; [intros []|constructor].
+    - inversion H as [|? ? Hn Hd]; subst. destruct (Nat.eqb_spec a k) as [->|Hne]; simpl.
+      + constructor; assumption.
+      + constructor; [|apply IH; assumption]. rewrite dset_keys. intros [E|Hin]; [congruence|contradiction].
+  Qed.
+
+  Lemma in_keys_dget d k : In k (dkeys d) <-> dget d k <> None.
+  Proof.
+    split.
+    - intros H E. apply dget_none in E. contradiction.
+    - intros H. destruct (in_dec Nat.eq_dec k (dkeys d)) as [Hin|Hn]; [exact Hin|].
+      apply dget_none in Hn. contradiction.
+  Qed.
+
+  (* a loop "for k in ks: if g k is Some v: d[k] = v" *)
+  Definition fold_set (g : nat -> option nat) (ks : list nat) (d0 : dict) : dict :=
+    fold_left (fun d k => match g k with Some v => dset d k v | None => d end) ks d0.
+
+  Lemma fold_set_get g ks d0 k :
+    dget (fold_set g ks d0) k =
+    match (if memb k ks then g k else None) with Some v => Some v | None => dget d0 k end.
+  Proof.
+    revert d0. induction ks as [|a ks IH]; intros d0; [reflexivity|].
+    unfold fold_set in *. simpl fold_left. rewrite IH.
+    unfold memb. simpl existsb. fold (memb k ks).
+    destruct (Nat.eqb_spec k a) as [->|Hne]; simpl.
+    - destruct (g a) as [v'|] eqn:Ga.
+      + destruct (memb a ks); [reflexivity|]. rewrite dget_dset, Nat.eqb_refl. reflexivity.
+      + destruct (memb a ks); reflexivity.
+    - destruct (memb k ks); [destruct (g k); [reflexivity|]|];
+        (destruct (g a) as [v'|];
+         [rewrite dget_dset; replace (a =? k) with false by (symmetry; apply Nat.eqb_neq; congruence)|];
+         reflexivity).
+  Qed.
+
+  Lemma fold_set_nodup g ks d0 : NoDup (dkeys d0) -> NoDup (dkeys (fold_set g ks d0)).
+  Proof.
+    revert d0. induction ks as [|a ks IH]; intros d0 H; [exact H|].
+    unfold fold_set in *. simpl. apply IH. destruct (g a); [apply dset_nodup|]; exact H.
+  Qed.
+
+  Lemma fold_left_ext {A B} (f g : A -> B -> A) l a :
+    (forall x y, f x y = g x y) -> fold_left f l a = fold_left g l a.
+  Proof. intros H. revert a. induction l as [|b l IH]; intros a; simpl; [reflexivity|]. rewrite H. apply IH. Qed.
+
+  Lemma find_key_spec ks v : find_key ks v = if memb v ks then Some v else None.
+  Proof.
+    induction ks as [|k ks IH]; [reflexivity|]. simpl. unfold memb. simpl existsb. fold (memb v ks).
+    destruct (Nat.eqb_spec v k) as [->|Hne]; simpl; [reflexivity|exact IH].
+  Qed.
+
+  Definition comp_fun (s1 s2 : dict) (k : nat) : nat := swap_fun s2 (swap_fun s1 k).
+  Definition added_of (s1 s2 : dict) (ks : list nat) : list nat :=
+    filter (fun v => memb v (dkeys s2)) (map (swap_fun s1) ks).
+
+  Lemma combine_phase1 s1 s2 ks new0 added0 :
+    fold_left (combine_step1 s1 s2) ks (new0, added0) =
+    (fold_set (fun k => Some (comp_fun s1 s2 k)) ks new0, added0 ++ added_of s1 s2 ks).
+  Proof.
+    revert new0 added0. induction ks as [|k ks IH]; intros new0 added0.
+    - simpl. unfold added_of. simpl. rewrite app_nil_r. reflexivity.
+    - change (fold_left (combine_step1 s1 s2) (k :: ks) (new0, added0))
+        with (fold_left (combine_step1 s1 s2) ks (combine_step1 s1 s2 (new0, added0) k)).
+      assert (Estep : combine_step1 s1 s2 (new0, added0) k =
+                      (dset new0 k (comp_fun s1 s2 k), added0 ++ added_of s1 s2 [k])).
+      { unfold combine_step1. rewrite find_key_spec. unfold added_of, comp_fun. simpl.
+        destruct (memb (swap_fun s1 k) (dkeys s2)) eqn:E.
+        - reflexivity.
+        - rewrite app_nil_r. rewrite (swap_fun_notin s2 (swap_fun s1 k)) by (apply memb_false; exact E).
+          reflexivity. }
+      rewrite Estep, IH. unfold fold_set. simpl. f_equal. rewrite <- app_assoc. f_equal.
+      unfold added_of. simpl. destruct (memb (swap_fun s1 k) (dkeys s2)); reflexivity.
+  Qed.
+
+  (* the dictionary before the final filter *)
+  Definition combine_raw (s1 s2 : dict) : dict :=
+    fold_set (fun k => if memb k (added_of s1 s2 (dkeys s1)) then None else Some (swap_fun s2 k)) (dkeys s2)
+             (fold_set (fun k => Some (comp_fun s1 s2 k)) (dkeys s1) []).
+
+  Definition nonfixed (kv : nat * nat) : bool := negb (Nat.eqb (fst kv) (snd kv)).
+
+  Lemma combine_swaps_raw s1 s2 : combine_swaps s1 s2 = filter nonfixed (combine_raw s1 s2).
+  Proof.
+    unfold combine_swaps. rewrite combine_phase1. simpl app. unfold combine_raw, fold_set.
+    f_equal. apply fold_left_ext. intros d k. unfold combine_step2.
+    destruct (memb k (added_of s1 s2 (dkeys s1))); reflexivity.
+  Qed.
+
+  Lemma combine_raw_nodup s1 s2 : NoDup (dkeys (combine_raw s1 s2)).
+  Proof. unfold combine_raw. apply fold_set_nodup, fold_set_nodup. constructor. Qed.
+
+  Lemma added_in s1 s2 k :
+    In k (added_of s1 s2 (dkeys s1)) <-> In k (dkeys s2) /\ exists k1, In k1 (dkeys s1) /\ swap_fun s1 k1 = k.
+  Proof.
+    unfold added_of. rewrite filter_In, in_map_iff, memb_In. split.
+    - intros [(k1 & E & H1) H2]. split; [exact H2|]. exists k1. split; assumption.
+    - intros [H2 (k1 & H1 & E)]. split; [|exact H2]. exists k1. split; assumption.
+  Qed.
+
+  Section Combine.
+    Variables s1 s2 : dict.
+    Hypothesis Hinj : forall a b, swap_fun s1 a = swap_fun s1 b -> a = b.
+
+    (* a value of s1 that is not a key of s1 cannot exist (injectivity) *)
+    Lemma added_is_key k : In k (added_of s1 s2 (dkeys s1)) -> In k (dkeys s1).
+    Proof.
+      intros H. apply added_in in H as [_ (k1 & H1 & E)].
+      destruct (in_dec Nat.eq_dec k (dkeys s1)) as [Hin|Hn]; [exact Hin|exfalso].
+      assert (k1 = k) by (apply Hinj; rewrite E; symmetry; apply swap_fun_notin, Hn). subst k1. contradiction.
+    Qed.
+
+    Lemma combine_raw_keys k : In k (dkeys (combine_raw s1 s2)) <-> In k (dkeys s1) \/ In k (dkeys s2).
+    Proof.
+      rewrite in_keys_dget. unfold combine_raw. rewrite !fold_set_get. simpl (dget [] k).
+      destruct (memb k (dkeys s2)) eqn:E2; [destruct (memb k (added_of s1 s2 (dkeys s1))) eqn:Ea|].
+      - apply memb_In, added_is_key in Ea. apply memb_In in Ea as Ea'. rewrite Ea'. split; [auto|discriminate].
+      - split; [intros _; right; apply memb_In; exact E2|discriminate].
+      - destruct (memb k (dkeys s1)) eqn:E1.
+        + split; [intros _; left; apply memb_In; exact E1|discriminate].
+        + split; [congruence|]. intros [H|H]; apply memb_In in H; congruence.
+    Qed.
+
+    Hypothesis Hsurj : forall k, exists k', swap_fun s1 k' = k.
+
+    Lemma combine_raw_fun k : swap_fun (combine_raw s1 s2) k = comp_fun s1 s2 k.
+    Proof.
+      unfold swap_fun at 1. unfold combine_raw. rewrite !fold_set_get. simpl (dget [] k).
+      destruct (memb k (dkeys s2)) eqn:E2; [destruct (memb k (added_of s1 s2 (dkeys s1))) eqn:Ea|].
+      - apply memb_In, added_is_key, memb_In in Ea. rewrite Ea. reflexivity.
+      - (* a key of s2 that is not the image of a key of s1 is fixed by s1 *)
+        destruct (Hsurj k) as (k' & Hk').
+        assert (Hfix : swap_fun s1 k = k).
+        { destruct (in_dec Nat.eq_dec k' (dkeys s1)) as [Hin|Hn].
+          - exfalso. apply memb_false in Ea. apply Ea. apply added_in. split; [apply memb_In; exact E2|].
+            exists k'. split; assumption.
+          - rewrite (swap_fun_notin _ _ Hn) in Hk'. subst k'. apply swap_fun_notin, Hn. }
+        unfold comp_fun. rewrite Hfix. reflexivity.
+      - destruct (memb k (dkeys s1)) eqn:E1; [reflexivity|].
+        unfold comp_fun. rewrite (swap_fun_notin s1 k) by (apply memb_false; exact E1).
+        symmetry. apply swap_fun_notin. apply memb_false. exact E2.
+    Qed.
+  End Combine.
+
+  Lemma filter_keys_sub (f : nat * nat -> bool) (d : dict) k : In k (dkeys (filter f d)) -> In k (dkeys d).
+  Proof.
+    unfold dkeys. rewrite !in_map_iff. intros (kv & E & H). apply filter_In in H as [H _]. exists kv. split; assumption.
+  Qed.
+
+  Lemma swap_fun_filter d k : NoDup (dkeys d) -> swap_fun (filter nonfixed d) k = swap_fun d k.
+  Proof.
+    induction d as [|[a b] d IH]; intros Hnd; [reflexivity|].
+    inversion Hnd as [|? ? Hn Hd]; subst. simpl filter. unfold nonfixed at 1. simpl fst. simpl snd.
+    destruct (Nat.eqb_spec a b) as [->|Hab]; simpl negb; cbv iota.
+    - unfold swap_fun at 2. simpl. destruct (Nat.eqb_spec b k) as [->|Hne].
+      + apply swap_fun_notin. intros Hin. apply Hn. eapply filter_keys_sub, Hin.
+      + apply IH, Hd.
+    - unfold swap_fun. simpl. destruct (a =? k); [reflexivity|].
+      apply IH, Hd.
+  Qed.
+
+  Lemma filter_keys d k :
+    NoDup (dkeys d) -> (In k (dkeys (filter nonfixed d)) <-> In k (dkeys d) /\ swap_fun d k <> k).
+  Proof.
+    induction d as [|[a b] d IH]; intros Hnd; [simpl; intuition|].
+    inversion Hnd as [|? ? Hn Hd]; subst. simpl filter. unfold nonfixed at 1. simpl fst. simpl snd.
+    unfold swap_fun. simpl dget.
+    destruct (Nat.eqb_spec a b) as [->|Hab]; simpl negb; cbv iota.
+    - rewrite (IH Hd). simpl. destruct (Nat.eqb_spec b k) as [->|Hne].
+      + split; [intros [Hin _]; contradiction|intros [_ H]; congruence].
+      + unfold swap_fun. split; [intros [H1 H2]; auto|intros [[H|H] H2]; [congruence|auto]].
+    - simpl. rewrite (IH Hd). destruct (Nat.eqb_spec a k) as [->|Hne].
+      + split; [intros _; split; [auto|congruence]|auto].
+      + unfold swap_fun. split; [intros [H|[H1 H2]]; [congruence|auto]|intros [[H|H] H2]; [congruence|auto]].
+  Qed.
+
+  (* combine s1 s2 denotes "first s1, then s2" ... *)
+  Theorem combine_is_composition s1 s2 :
+    (forall a b, swap_fun s1 a = swap_fun s1 b -> a = b) -> (forall k, exists k', swap_fun s1 k' = k) ->
+    forall k, swap_fun (combine_swaps s1 s2) k = swap_fun s2 (swap_fun s1 k).
+  Proof.
+    intros Hinj Hsurj k. rewrite combine_swaps_raw, swap_fun_filter by apply combine_raw_nodup.
+    apply combine_raw_fun; assumption.
+  Qed.
+
+  (* ... and drops exactly the fixed points *)
+  Theorem combine_keys s1 s2 :
+    (forall a b, swap_fun s1 a = swap_fun s1 b -> a = b) -> (forall k, exists k', swap_fun s1 k' = k) ->
+    forall k, In k (dkeys (combine_swaps s1 s2)) <->
+              (In k (dkeys s1) \/ In k (dkeys s2)) /\ swap_fun s2 (swap_fun s1 k) <> k.
+  Proof.
+    intros Hinj Hsurj k. rewrite combine_swaps_raw, filter_keys by apply combine_raw_nodup.
+    rewrite combine_raw_keys by assumption. rewrite combine_raw_fun by assumption. reflexivity.
+  Qed.
+
+  Lemma combine_nodup s1 s2 : NoDup (dkeys (combine_swaps s1 s2)).
+  Proof.
+    rewrite combine_swaps_raw. pose proof (combine_raw_nodup s1 s2) as H.
+    induction (combine_raw s1 s2) as [|[a b] d IH]; [constructor|].
+    inversion H as [|? ? Hn Hd]; subst. simpl. destruct (nonfixed (a, b)); [|apply IH, Hd].
+    simpl. constructor; [|apply IH, Hd]. intros Hin. apply Hn. eapply filter_keys_sub, Hin.
+  Qed.
+
+  Lemma combine_ok N s1 s2 : swaps_ok N s1 -> swaps_ok N s2 -> swaps_ok N (combine_swaps s1 s2).
+  Proof.
+    intros [Hp1 Hk1] [Hp2 Hk2].
+    assert (Hinj : forall a b, swap_fun s1 a = swap_fun s1 b -> a = b) by (intros a b; apply (perm_on_inj N), Hp1).
+    assert (Hsurj : forall k, exists k', swap_fun s1 k' = k) by (intros k; apply (perm_on_surj N), Hp1).
+    pose proof (perm_on_comp N _ _ Hp1 Hp2) as Hc.
+    split.
+    - eapply perm_on_ext; [|exact Hc]. intros i. symmetry. apply combine_is_composition; assumption.
+    - intros k Hin. apply (combine_keys s1 s2 Hinj Hsurj) in Hin as [Hor Hne]. split.
+      + destruct Hor as [H|H]; [apply Hk1, H|apply Hk2, H].
+      + rewrite combine_is_composition by assumption. apply combine_keys; try assumption.
+        set (fk := swap_fun s2 (swap_fun s1 k)) in *. split.
+        * destruct (in_dec Nat.eq_dec fk (dkeys s1)) as [H1|H1]; [left; exact H1|].
+          destruct (in_dec Nat.eq_dec fk (dkeys s2)) as [H2|H2]; [right; exact H2|exfalso].
+          apply Hne. apply (perm_on_inj N _ _ _ Hc). fold fk.
+          rewrite (swap_fun_notin s1 fk H1), (swap_fun_notin s2 fk H2). reflexivity.
+        * intros E. apply Hne. apply (perm_on_inj N _ _ _ Hc). exact E.
+  Qed.
+
+  (* ====================================================================== *)
+  (* Part 4: compress_mode_swaps (with the N5 repair)                       *)
+  (* ====================================================================== *)
+  (* the entries of l (positions idx, idx+1, ...) that are not marked as merged *)
+  Fixpoint live (idx : nat) (l : list comp) (skip : list nat) : list comp :=
+    match l with
+    | [] => []
+    | c :: l' => if memb idx skip then live (S idx) l' skip else c :: live (S idx) l' skip
+    end.
+
+  Lemma live_ext l : forall idx skip skip',
+    (forall x, idx <= x -> memb x skip = memb x skip') -> live idx l skip = live idx l skip'.
+  Proof.
+    induction l as [|c l IH]; intros idx skip skip' H; simpl; [reflexivity|].
+    rewrite (H idx) by lia. rewrite (IH (S idx) skip skip') by (intros; apply H; lia). reflexivity.
+  Qed.
+
+  Lemma live_nil l idx : live idx l [] = l.
+  Proof. revert idx. induction l as [|c l IH]; intros idx; simpl; [reflexivity|]. rewrite IH. reflexivity. Qed.
+
+  Lemma memb_app x l1 l2 : memb x (l1 ++ l2) = memb x l1 || memb x l2.
+  Proof. unfold memb. apply existsb_app. Qed.
+
+  (* the inner scan only ever adds positions >= idx to to_skip *)
+  Lemma compress_inner_skip : forall (rest : list comp) r idx blocked cur skip cur' skip',
+    compress_inner r idx rest blocked cur skip = (cur', skip') ->
+    (forall x, memb x skip = true -> memb x skip' = true) /\
+    (forall x, x < idx -> memb x skip' = memb x skip).
+  Proof.
+    induction rest as [|c2 rest IH]; intros r idx blocked cur skip cur' skip' H.
+    - simpl in H. injection H as <- <-. split; auto.
+    - simpl in H. destruct (r && memb idx skip).
+      + apply IH in H as [H1 H2]. split; [exact H1|]. intros x Hx. apply H2. lia.
+      + destruct c2;
+          try (apply IH in H as [H1 H2]; split; [exact H1|intros x Hx; apply H2; lia]).
+        destruct (existsb (fun m => memb m blocked) (dkeys sw)).
+        * apply IH in H as [H1 H2]. split; [exact H1|intros x Hx; apply H2; lia].
+        * apply IH in H as [H1 H2]. split.
+          -- intros x Hx. apply H1. rewrite memb_app, Hx. reflexivity.
+          -- intros x Hx. rewrite H2 by lia. rewrite memb_app.
+             replace (memb x [idx]) with false; [apply orb_false_r|].
+             symmetry. unfold memb. simpl. replace (x =? idx) with false by (symmetry; apply Nat.eqb_neq; lia). reflexivity.
+  Qed.
+
+  Lemma inner_nonswap (c2 : comp) rest idx blocked cur skip :
+    (forall sw, c2 <> Swaps sw) -> memb idx skip = false ->
+    compress_inner true idx (c2 :: rest) blocked cur skip =
+    compress_inner true (S idx) rest (blocked ++ blocked_of c2) cur skip.
+  Proof.
+    intros H E. simpl. rewrite E. simpl. destruct c2; try reflexivity. exfalso. eapply H. reflexivity.
+  Qed.
+
+  (* blocked_modes covers the modes of every component scanned so far *)
+  Lemma cmodes_blocked N (c : comp) :
+    rok N c -> (forall sw, c <> Swaps sw) -> forall m, In m (cmodes c) -> In m (blocked_of c).
+  Proof.
+    intros Hok Hns m Hm. destruct Hok; try exact Hm.
+    - exfalso. eapply Hns. reflexivity.
+    - unfold blocked_of. apply in_seq. specialize (H0 m Hm). lia.
+  Qed.
+
+  Definition Bok (N : nat) (blocked : list nat) (B : list comp) : Prop :=
+    Forall (fun c => rok N c /\ forall m, In m (cmodes c) -> In m blocked) B.
+
+  Lemma Bok_snoc N blocked B c extra :
+    Bok N blocked B -> rok N c -> (forall m, In m (cmodes c) -> In m extra) ->
+    Bok N (blocked ++ extra) (B ++ [c]).
+  Proof.
+    intros HB Hc Hm. apply Forall_app. split.
+    - eapply Forall_impl; [|exact HB]. intros x [H1 H2]. split; [exact H1|].
+      intros m Hin. apply in_or_app. left. apply H2, Hin.
+    - constructor; [|constructor]. split; [exact Hc|]. intros m Hin. apply in_or_app. right. apply Hm, Hin.
+  Qed.
+
+  (* a swap that touches none of the modes of B can be moved in front of B *)
+  Lemma commute_back e N sw (B : list comp) :
+    perm_on N (swap_fun sw) ->
+    Forall (fun c => rok N c /\ forall m, In m (cmodes c) -> ~ In m (dkeys sw)) B ->
+    speq e N (B ++ [Swaps sw]) (Swaps sw :: B).
+  Proof.
+    intros Hperm. induction 1 as [|c B [Hc Hd] _ IH]; [apply speq_refl|].
+    simpl app. eapply speq_trans; [apply speq_cons, IH|].
+    apply (speq_app_r e N [c; Swaps sw] [Swaps sw; c] B).
+    intros st Hst. apply steq_sym. apply (swap_commute e N); assumption.
+  Qed.
+
+  Lemma compress_inner_swaps_ok N : forall rest idx blocked cur skip cur' skip',
+    Forall (rok N) rest -> swaps_ok N cur ->
+    compress_inner true idx rest blocked cur skip = (cur', skip') -> swaps_ok N cur'.
+  Proof.
+    induction rest as [|c2 rest IH]; intros idx blocked cur skip cur' skip' Hrest Hcur H.
+    - simpl in H. injection H as <- _. exact Hcur.
+    - inversion Hrest as [|? ? Hc2 Hrest']; subst. simpl in H. destruct (memb idx skip); simpl in H.
+      + eapply IH; eassumption.
+      + destruct c2; try (eapply IH; eassumption).
+        destruct (existsb (fun m => memb m blocked) (dkeys sw)); [eapply IH; eassumption|].
+        eapply IH; [exact Hrest'| |exact H]. apply combine_ok; [exact Hcur|]. inversion Hc2; assumption.
+  Qed.
+
+  (* the inner scan: merging the unblocked later swaps into the current one preserves the transformation *)
+  Lemma compress_inner_ok e N : forall rest idx blocked cur skip B cur' skip',
+    Forall (rok N) rest -> swaps_ok N cur -> Bok N blocked B ->
+    compress_inner true idx rest blocked cur skip = (cur', skip') ->
+    speq e N (Swaps cur :: B ++ live idx rest skip) (Swaps cur' :: B ++ live idx rest skip').
+  Proof.
+    induction rest as [|c2 rest IH]; intros idx blocked cur skip B cur' skip' Hrest Hcur HB Hrun.
+    - simpl in Hrun. injection Hrun as <- <-. apply speq_refl.
+    - inversion Hrest as [|? ? Hc2 Hrest']; subst.
+      destruct (memb idx skip) eqn:Eskip.
+      + (* already merged into an earlier swap: skipped *)
+        simpl in Hrun. rewrite Eskip in Hrun. simpl in Hrun.
+        pose proof (compress_inner_skip _ _ _ _ _ _ _ _ Hrun) as [Hmono _].
+        simpl live. rewrite Eskip, (Hmono idx Eskip).
+        eapply IH; eassumption.
+      + assert (Hcase : (exists sw2, c2 = Swaps sw2) \/ (forall sw, c2 <> Swaps sw)).
+        { destruct c2; try (right; intros ? ?; discriminate). left. eexists. reflexivity. }
+        (* common part for a component that stays where it is *)
+        assert (Hstay : forall blocked',
+                   Bok N blocked' (B ++ [c2]) ->
+                   compress_inner true (S idx) rest blocked' cur skip = (cur', skip') ->
+                   speq e N (Swaps cur :: B ++ live idx (c2 :: rest) skip)
+                            (Swaps cur' :: B ++ live idx (c2 :: rest) skip')).
+        { intros blocked' HB' Hrun'.
+          pose proof (compress_inner_skip _ _ _ _ _ _ _ _ Hrun') as [_ Hlow].
+          simpl live. rewrite (Hlow idx) by lia. rewrite Eskip.
+          pose proof (IH _ _ _ _ _ _ _ Hrest' Hcur HB' Hrun') as Heq.
+          rewrite <- !app_assoc in Heq. exact Heq. }
+        destruct Hcase as [[sw2 ->]|Hns].
+        * simpl in Hrun. rewrite Eskip in Hrun. simpl in Hrun.
+          destruct (existsb (fun m => memb m blocked) (dkeys sw2)) eqn:Eblk.
+          -- (* blocked swap *)
+             apply (Hstay (blocked ++ dkeys sw2)); [|exact Hrun].
+             apply Bok_snoc; [exact HB|exact Hc2|]. intros m Hm. exact Hm.
+          -- (* merge: move sw2 in front of B, combine with cur *)
+             assert (Hfree : forall m, In m (dkeys sw2) -> ~ In m blocked).
+             { intros m Hm Hb. apply memb_In in Hb.
+               assert (existsb (fun m => memb m blocked) (dkeys sw2) = true)
+                 by (apply existsb_exists; exists m; split; assumption).
+               congruence. }
+             assert (Hok2 : swaps_ok N sw2) by (inversion Hc2; assumption).
+             pose proof (compress_inner_skip _ _ _ _ _ _ _ _ Hrun) as [Hmono _].
+             pose proof (IH _ _ _ _ _ _ _ Hrest' (combine_ok N _ _ Hcur Hok2) HB Hrun) as Heq.
+             simpl live. rewrite Eskip.
+             rewrite (Hmono idx) by (rewrite memb_app; unfold memb at 2; simpl; rewrite Nat.eqb_refl; apply orb_true_r).
+             rewrite (live_ext rest (S idx) (skip ++ [idx]) skip) in Heq.
+             2:{ intros x Hx. rewrite memb_app. unfold memb at 2. simpl.
+                 replace (x =? idx) with false by (symmetry; apply Nat.eqb_neq; lia). apply orb_false_r. }
+             eapply speq_trans; [|exact Heq].
+             set (R := live (S idx) rest skip).
+             (* Swaps cur :: B ++ Swaps sw2 :: R  ~  Swaps cur :: Swaps sw2 :: B ++ R  ~  Swaps comb :: B ++ R *)
+             eapply speq_trans.
+             { apply speq_cons. replace (B ++ Swaps sw2 :: R) with ((B ++ [Swaps sw2]) ++ R)
+                 by (rewrite <- app_assoc; reflexivity).
+               apply speq_app_r. apply commute_back; [apply Hok2|].
+               eapply Forall_impl; [|exact HB]. intros x [H1 H2]. split; [exact H1|].
+               intros m Hm Hk. apply (Hfree m Hk). apply H2, Hm. }
+             apply (speq_app_r e N [Swaps cur; Swaps sw2] [Swaps (combine_swaps cur sw2)] (B ++ R)).
+             intros st Hst. apply (swaps_merge e N); [apply Hcur| |exact Hst].
+             destruct Hcur as [Hp _]. apply combine_is_composition.
+             ++ intros a b. apply (perm_on_inj N), Hp.
+             ++ intros k. apply (perm_on_surj N), Hp.
+        * rewrite inner_nonswap in Hrun by assumption.
+          apply (Hstay (blocked ++ blocked_of c2)); [|exact Hrun].
+          apply Bok_snoc; [exact HB|exact Hc2|]. apply (cmodes_blocked N); assumption.
+  Qed.
+
+  Lemma compress_outer_ok e N : forall l i skip new,
+    Forall (rok N) l -> speq e N (compress_outer true i l skip new) (new ++ live i l skip).
+  Proof.
+    induction l as [|c rest IH]; intros i skip new Hl.
+    - simpl. rewrite app_nil_r. apply speq_refl.
+    - inversion Hl as [|? ? Hc Hrest]; subst. simpl. destruct (memb i skip) eqn:E; [apply IH; assumption|].
+      destruct c; try (eapply speq_trans; [apply IH; assumption|]; rewrite <- app_assoc; apply speq_refl).
+      destruct (compress_inner true (S i) rest [] sw skip) as [sw' ts'] eqn:Einner.
+      eapply speq_trans; [apply IH; assumption|]. rewrite <- app_assoc. apply speq_app_l. simpl.
+      apply speq_sym.
+      apply (compress_inner_ok e N rest (S i) [] sw skip [] sw' ts'); try assumption.
+      + inversion Hc; assumption.
+      + constructor.
+  Qed.
+
+  (* T1 compress_preserves (full, for the repaired function) *)
+  Theorem compress_preserves e N (sp : list comp) :
+    Forall (rok N) sp -> speq e N (compress_spec sp) sp.
+  Proof.
+    intros H. unfold compress_spec, compress_gen.
+    pose proof (compress_outer_ok e N sp 0 [] [] H) as Heq. simpl in Heq. rewrite live_nil in Heq. exact Heq.
+  Qed.
+
+  (* T1 compress_len: holds for the repaired and for the pinned function *)
+  Lemma compress_outer_len r : forall (l : list comp) i skip new,
+    length (compress_outer r i l skip new) <= length new + length l.
+  Proof.
+    induction l as [|c rest IH]; intros i skip new; simpl; [lia|].
+    destruct (memb i skip); [specialize (IH (S i) skip new); lia|].
+    destruct c;
+      try (match goal with |- context [compress_outer r (S i) rest skip (new ++ [?x])] =>
+             specialize (IH (S i) skip (new ++ [x])) end; rewrite app_length in IH; simpl in IH; lia).
+    destruct (compress_inner r (S i) rest [] sw skip) as [sw' ts'].
+    specialize (IH (S i) ts' (new ++ [Swaps sw'])). rewrite app_length in IH. simpl in IH. lia.
+  Qed.
+
+  Theorem compress_len r (sp : list comp) : length (compress_gen r sp) <= length sp.
+  Proof. unfold compress_gen. pose proof (compress_outer_len r sp 0 [] []). simpl in H. exact H. Qed.
+
+  Lemma compress_outer_rok N : forall (l : list comp) i skip new,
+    Forall (rok N) l -> Forall (rok N) new -> Forall (rok N) (compress_outer true i l skip new).
+  Proof.
+    induction l as [|c rest IH]; intros i skip new Hl Hnew; simpl; [exact Hnew|].
+    inversion Hl as [|? ? Hc Hrest]; subst. destruct (memb i skip); [apply IH; assumption|].
+    destruct c; try (apply IH; [assumption|apply Forall_app; split; [assumption|constructor; [assumption|constructor]]]).
+    destruct (compress_inner true (S i) rest [] sw skip) as [sw' ts'] eqn:Einner.
+    apply IH; [assumption|]. apply Forall_app. split; [assumption|]. constructor; [|constructor].
+    constructor. eapply compress_inner_swaps_ok; [exact Hrest| |exact Einner]. inversion Hc; assumption.
+  Qed.
+
+  Lemma compress_rok N (sp : list comp) : Forall (rok N) sp -> Forall (rok N) (compress_spec sp).
+  Proof. intros H. apply compress_outer_rok; [exact H|constructor]. Qed.
+
+  (* ====================================================================== *)
+  (* Part 5: convert_non_adj_beamsplitters                                  *)
+  (* ====================================================================== *)
+  Lemma dset_notin d k v : ~ In k (dkeys d) -> dset d k v = d ++ [(k, v)].
+  Proof.
+    induction d as [|[a b] d IH]; intros H; simpl; [reflexivity|].
+    destruct (Nat.eqb_spec a k) as [->|Hne]; [exfalso; apply H; left; reflexivity|].
+    rewrite IH; [reflexivity|]. intros Hin. apply H. right. exact Hin.
+  Qed.
+
+  Lemma dict_of_nodup (l : list (nat * nat)) : NoDup (map fst l) -> dict_of l = l.
+  Proof.
+    intros H. unfold dict_of.
+    assert (G : forall l acc, NoDup (dkeys acc ++ map fst l) ->
+                fold_left (fun dd kv => dset dd (fst kv) (snd kv)) l acc = acc ++ l).
+    { clear. induction l as [|[a b] l IHl]; intros acc Hn; simpl; [rewrite app_nil_r; reflexivity|].
+      simpl in Hn. pose proof (NoDup_remove_2 _ _ _ Hn) as Hna.
+      rewrite dset_notin by (intros Hin; apply Hna; apply in_or_app; left; exact Hin).
+      rewrite IHl; [rewrite <- app_assoc; reflexivity|].
+      unfold dkeys. rewrite map_app. simpl. rewrite <- app_assoc. simpl. exact Hn. }
+    apply (G l []). simpl. exact H.
+  Qed.
+
+  Lemma wf_swaps_mono N N' sw : N <= N' -> wf_swaps N sw -> wf_swaps N' sw.
+  Proof.
+    intros Hle (Hk & Hv & Hkv & Hr). repeat split; try assumption; try apply Hkv.
+    intros k Hin. specialize (Hr k Hin). lia.
+  Qed.
+
+  Lemma wf_swaps_bij N sw : wf_swaps N sw -> bij N (swap_fun sw) (swap_fun (inv_dict sw)).
+  Proof.
+    intros (Hk & Hv & Hkv & Hr).
+    assert (Hkv' : forall k, In k (dkeys (inv_dict sw)) <-> In k (dvals (inv_dict sw))).
+    { intros k. rewrite inv_dict_keys, inv_dict_vals. symmetry. apply Hkv. }
+    assert (Hr' : forall k, In k (dkeys (inv_dict sw)) -> k < N).
+    { intros k. rewrite inv_dict_keys. intros Hin. apply Hr, Hkv, Hin. }
+    repeat split.
+    - intros i Hi. apply swap_fun_range; assumption.
+    - intros i Hi. apply swap_fun_range; assumption.
+    - intros i _. apply swap_inv_l; assumption.
+    - intros i _. replace sw with (inv_dict (inv_dict sw)) at 1.
+      + apply swap_inv_l; rewrite ?inv_dict_keys, ?inv_dict_vals; try assumption.
+        intros k. symmetry. apply Hkv.
+      + unfold inv_dict. rewrite map_map. rewrite <- (map_id sw) at 2. apply map_ext. intros [a b]; reflexivity.
+  Qed.
+
+  Lemma wf_swaps_inv N sw : wf_swaps N sw -> wf_swaps N (inv_dict sw).
+  Proof.
+    intros (Hk & Hv & Hkv & Hr). unfold wf_swaps. rewrite inv_dict_keys, inv_dict_vals.
+    repeat split; try assumption; try apply Hkv. intros k Hin. apply Hr, Hkv, Hin.
+  Qed.
+
+  Lemma flip_dict_inv sw : NoDup (dvals sw) -> flip_dict sw = inv_dict sw.
+  Proof.
+    intros H. unfold flip_dict. change (map (fun kv => (snd kv, fst kv)) sw) with (inv_dict sw).
+    apply dict_of_nodup. change (map fst (inv_dict sw)) with (dkeys (inv_dict sw)).
+    rewrite inv_dict_keys. exact H.
+  Qed.
+
+  Lemma tab3 n (A B C U : mat) :
+    meq n (tab co n (mmul co n A (tab co n (mmul co n B (tab co n (mmul co n C U))))))
+          (mmul co n (mmul co n A (mmul co n B C)) U).
+  Proof.
+    eapply meq_trans; [apply tab_spec|].
+    eapply meq_trans; [apply mmul_compat; [apply meq_refl|apply tab2]|].
+    intros i j _ _. symmetry. apply mmul_assoc.
+  Qed.
+
+  (* swap . BS . unswap = the beam splitter on the pre-images of its modes,
+     for either mode order and either convention *)
+  Lemma conj_bs_mat N n sw a1 a2 x cv :
+    wf_swaps N sw -> N <= n -> a1 < N -> a2 < N ->
+    meq n (mmul co n (swaps_mat o (inv_dict sw)) (mmul co n (bs_mat o a1 a2 x cv) (swaps_mat o sw)))
+          (bs_mat o (swap_fun (inv_dict sw) a1) (swap_fun (inv_dict sw) a2) x cv).
+  Proof.
+    intros Hwf Hle H1 H2.
+    pose proof (wf_swaps_bij n sw (wf_swaps_mono N n sw Hle Hwf)) as Hb.
+    unfold swaps_mat. eapply meq_trans; [apply perm_conj; exact Hb|].
+    unfold bs_mat. destruct cv; apply embed2_relabel; try exact Hb; lia.
+  Qed.
+
+  Lemma conj_bs e N sw a1 a2 v cv :
+    wf_swaps N sw -> a1 < N -> a2 < N ->
+    speq e N [Swaps sw; BS a1 a2 v cv; Swaps (inv_dict sw)]
+             [BS (swap_fun (inv_dict sw) a1) (swap_fun (inv_dict sw) a2) v cv].
+  Proof.
+    intros Hwf H1 H2 st Hst. destruct st as [[n U]|x]; [|reflexivity]. simpl in Hst.
+    unfold Circuit.cadd_list. simpl.
+    destruct (in01 o (t1 (getv e v))); [|reflexivity]. simpl. split; [reflexivity|].
+    eapply meq_trans; [apply tab3|]. apply meq_sym. eapply meq_trans; [apply tab_spec|]. apply meq_sym.
+    apply mmul_compat; [|apply meq_refl]. apply (conj_bs_mat N); assumption.
+  Qed.
+
+  (* ---- the dictionary built by the two loops ---- *)
+  Lemma mid_bounds lo hi : lo < hi -> lo <= non_adj_mid lo hi /\ non_adj_mid lo hi < hi.
+  Proof.
+    intros H. unfold non_adj_mid.
+    pose proof (Nat.div_mod (lo + hi - 1) 2 ltac:(lia)).
+    pose proof (Nat.mod_upper_bound (lo + hi - 1) 2 ltac:(lia)). lia.
+  Qed.
+
+  Definition na_fun (lo hi i : nat) : nat :=
+    let mid := non_adj_mid lo hi in
+    if i <=? mid then (if i =? lo then mid else i - 1) else (if i =? hi then mid + 1 else i + 1).
+
+  Lemma non_adj_pairs_eq lo hi :
+    lo < hi -> non_adj_pairs lo hi = map (fun i => (i, na_fun lo hi i)) (seq lo (hi + 1 - lo)).
+  Proof.
+    intros H. destruct (mid_bounds lo hi H) as [H1 H2]. unfold non_adj_pairs.
+    set (mid := non_adj_mid lo hi) in *.
+    replace (hi + 1 - lo) with ((mid + 1 - lo) + (hi - mid)) by lia.
+    rewrite seq_app, map_app. replace (lo + (mid + 1 - lo)) with (mid + 1) by lia.
+    f_equal; apply map_ext_in; intros i Hi; apply in_seq in Hi; unfold na_fun; fold mid.
+    - replace (i <=? mid) with true by (symmetry; apply Nat.leb_le; lia). reflexivity.
+    - replace (i <=? mid) with false by (symmetry; apply Nat.leb_gt; lia). reflexivity.
+  Qed.
+
+  Ltac na_cases i lo hi mid :=
+    destruct (Nat.leb_spec i mid); destruct (Nat.eqb_spec i lo); destruct (Nat.eqb_spec i hi).
+
+  Lemma na_fun_range lo hi i : lo < hi -> lo <= i <= hi -> lo <= na_fun lo hi i <= hi.
+  Proof.
+    intros H Hi. destruct (mid_bounds lo hi H). unfold na_fun. set (mid := non_adj_mid lo hi) in *.
+    na_cases i lo hi mid; lia.
+  Qed.
+
+  Lemma na_fun_inj lo hi a b :
+    lo < hi -> lo <= a <= hi -> lo <= b <= hi -> na_fun lo hi a = na_fun lo hi b -> a = b.
+  Proof.
+    intros H Ha Hb. destruct (mid_bounds lo hi H). unfold na_fun. set (mid := non_adj_mid lo hi) in *.
+    na_cases a lo hi mid; na_cases b lo hi mid; lia.
+  Qed.
+
+  Lemma na_fun_surj lo hi k : lo < hi -> lo <= k <= hi -> exists i, lo <= i <= hi /\ na_fun lo hi i = k.
+  Proof.
+    intros H Hk. destruct (mid_bounds lo hi H). unfold na_fun. set (mid := non_adj_mid lo hi) in *.
+    destruct (Nat.eq_dec k mid) as [->|E1]; [exists lo|destruct (Nat.eq_dec k (mid + 1)) as [->|E2];
+      [exists hi|destruct (le_lt_dec k mid); [exists (k + 1)|exists (k - 1)]]].
+    - split; [lia|]. na_cases lo lo hi mid; lia.
+    - split; [lia|]. na_cases hi lo hi mid; lia.
+    - split; [lia|]. na_cases (k + 1) lo hi mid; lia.
+    - split; [lia|]. na_cases (k - 1) lo hi mid; lia.
+  Qed.
+
+  Lemma NoDup_map_inj_in {A B} (f : A -> B) (l : list A) :
+    (forall a b, In a l -> In b l -> f a = f b -> a = b) -> NoDup l -> NoDup (map f l).
+  Proof.
+    induction l as [|a l IH]; intros Hinj Hn; simpl; [constructor|].
+    inversion Hn as [|? ? Hna Hnl]; subst. constructor.
+    - rewrite in_map_iff. intros (b & E & Hb). assert (b = a) by (apply Hinj; simpl; auto). subst. contradiction.
+    - apply IH; [|exact Hnl]. intros x y Hx Hy. apply Hinj; simpl; auto.
+  Qed.
+
+  Lemma non_adj_swaps_eq lo hi :
+    lo < hi -> non_adj_swaps lo hi = map (fun i => (i, na_fun lo hi i)) (seq lo (hi + 1 - lo)).
+  Proof.
+    intros H. unfold non_adj_swaps. rewrite non_adj_pairs_eq by exact H.
+    apply dict_of_nodup. rewrite map_map. simpl. rewrite map_id. apply seq_NoDup.
+  Qed.
+
+  Lemma non_adj_keys lo hi : lo < hi -> dkeys (non_adj_swaps lo hi) = seq lo (hi + 1 - lo).
+  Proof. intros H. rewrite non_adj_swaps_eq by exact H. unfold dkeys. rewrite map_map. simpl. apply map_id. Qed.
+
+  Lemma non_adj_vals lo hi : lo < hi -> dvals (non_adj_swaps lo hi) = map (na_fun lo hi) (seq lo (hi + 1 - lo)).
+  Proof. intros H. rewrite non_adj_swaps_eq by exact H. unfold dvals. rewrite map_map. reflexivity. Qed.
+
+  Lemma non_adj_wf N lo hi : lo < hi -> hi < N -> wf_swaps N (non_adj_swaps lo hi).
+  Proof.
+    intros H HN. unfold wf_swaps. rewrite non_adj_keys, non_adj_vals by exact H. repeat split.
+    - apply seq_NoDup.
+    - apply NoDup_map_inj_in; [|apply seq_NoDup]. intros a b Ha Hb. apply in_seq in Ha, Hb.
+      apply na_fun_inj; lia.
+    - intros Hk. apply in_seq in Hk. destruct (na_fun_surj lo hi k H ltac:(lia)) as (i & Hi & E).
+      apply in_map_iff. exists i. split; [exact E|apply in_seq; lia].
+    - intros Hk. apply in_map_iff in Hk as (i & <- & Hi). apply in_seq in Hi.
+      pose proof (na_fun_range lo hi i H ltac:(lia)). apply in_seq. lia.
+    - intros k Hk. apply in_seq in Hk. lia.
+  Qed.
+
+  Lemma non_adj_fun lo hi i : lo < hi -> lo <= i <= hi -> swap_fun (non_adj_swaps lo hi) i = na_fun lo hi i.
+  Proof.
+    intros H Hi. unfold swap_fun. rewrite (dget_in _ i (na_fun lo hi i)); [reflexivity| |].
+    - rewrite non_adj_keys by exact H. apply seq_NoDup.
+    - rewrite non_adj_swaps_eq by exact H. apply in_map_iff. exists i. split; [reflexivity|apply in_seq; lia].
+  Qed.
+
+  Lemma non_adj_lo lo hi : lo < hi -> swap_fun (non_adj_swaps lo hi) lo = non_adj_mid lo hi.
+  Proof.
+    intros H. rewrite non_adj_fun by lia. destruct (mid_bounds lo hi H). unfold na_fun.
+    set (mid := non_adj_mid lo hi) in *. na_cases lo lo hi mid; lia.
+  Qed.
+  Lemma non_adj_hi lo hi : lo < hi -> swap_fun (non_adj_swaps lo hi) hi = non_adj_mid lo hi + 1.
+  Proof.
+    intros H. rewrite non_adj_fun by lia. destruct (mid_bounds lo hi H). unfold na_fun.
+    set (mid := non_adj_mid lo hi) in *. na_cases hi lo hi mid; lia.
+  Qed.
+
+  (* the unswap dictionary sends mid, mid+1 back to lo, hi *)
+  Lemma non_adj_back N lo hi :
+    lo < hi -> hi < N ->
+    swap_fun (inv_dict (non_adj_swaps lo hi)) (non_adj_mid lo hi) = lo /\
+    swap_fun (inv_dict (non_adj_swaps lo hi)) (non_adj_mid lo hi + 1) = hi.
+  Proof.
+    intros H HN. destruct (non_adj_wf N lo hi H HN) as (Hk & Hv & Hkv & _).
+    split.
+    - rewrite <- (non_adj_lo lo hi H). apply swap_inv_l; assumption.
+    - rewrite <- (non_adj_hi lo hi H). apply swap_inv_l; assumption.
+  Qed.
+
+  Lemma adjacent_spec m1 m2 : adjacent m1 m2 = true <-> m1 + 1 = m2 \/ m2 + 1 = m1.
+  Proof. unfold adjacent. rewrite orb_true_iff, !Nat.eqb_eq. reflexivity. Qed.
+
+  (* the three components that replace a non-adjacent beam splitter *)
+  Lemma non_adj_comp_lt m1 m2 (v : val (K:=K)) cv :
+    adjacent m1 m2 = false -> m1 < m2 ->
+    non_adj_comp (BS m1 m2 v cv) =
+    [Swaps (non_adj_swaps m1 m2); BS (non_adj_mid m1 m2) (non_adj_mid m1 m2 + 1) v cv;
+     Swaps (flip_dict (non_adj_swaps m1 m2))].
+  Proof.
+    intros Ha Hlt. unfold non_adj_comp. rewrite Ha.
+    rewrite Nat.min_l, Nat.max_r by lia.
+    replace (m2 <? m1) with false by (symmetry; apply Nat.ltb_ge; lia). reflexivity.
+  Qed.
+
+  Lemma non_adj_comp_gt m1 m2 (v : val (K:=K)) cv :
+    adjacent m1 m2 = false -> m2 < m1 ->
+    non_adj_comp (BS m1 m2 v cv) =
+    [Swaps (non_adj_swaps m2 m1); BS (non_adj_mid m2 m1 + 1) (non_adj_mid m2 m1) v cv;
+     Swaps (flip_dict (non_adj_swaps m2 m1))].
+  Proof.
+    intros Ha Hlt. unfold non_adj_comp. rewrite Ha.
+    rewrite Nat.min_r, Nat.max_l by lia.
+    replace (m2 <? m1) with true by (symmetry; apply Nat.ltb_lt; lia). reflexivity.
+  Qed.
+
+  Lemma non_adj_bs e N m1 m2 v cv :
+    m1 < N -> m2 < N -> m1 <> m2 -> speq e N (non_adj_comp (BS m1 m2 v cv)) [BS m1 m2 v cv].
+  Proof.
+    intros H1 H2 Hne. destruct (adjacent m1 m2) eqn:Ha.
+    { unfold non_adj_comp. rewrite Ha. apply speq_refl. }
+    destruct (lt_dec m1 m2) as [Hlt|Hge].
+    - rewrite non_adj_comp_lt by assumption.
+      pose proof (non_adj_wf N m1 m2 Hlt H2) as Hwf. destruct (mid_bounds m1 m2 Hlt).
+      rewrite flip_dict_inv by apply Hwf.
+      destruct (non_adj_back N m1 m2 Hlt H2) as [E1 E2].
+      pose proof (conj_bs e N (non_adj_swaps m1 m2) (non_adj_mid m1 m2) (non_adj_mid m1 m2 + 1) v cv Hwf
+                          ltac:(lia) ltac:(lia)) as Hgoal.
+      rewrite E1, E2 in Hgoal. exact Hgoal.
+    - assert (Hlt : m2 < m1) by lia. rewrite non_adj_comp_gt by assumption.
+      pose proof (non_adj_wf N m2 m1 Hlt H1) as Hwf. destruct (mid_bounds m2 m1 Hlt).
+      rewrite flip_dict_inv by apply Hwf.
+      destruct (non_adj_back N m2 m1 Hlt H1) as [E1 E2].
+      pose proof (conj_bs e N (non_adj_swaps m2 m1) (non_adj_mid m2 m1 + 1) (non_adj_mid m2 m1) v cv Hwf
+                          ltac:(lia) ltac:(lia)) as Hgoal.
+      rewrite E1, E2 in Hgoal. exact Hgoal.
+  Qed.
+
+  Lemma flat_map_speq e N (f : comp -> list comp) (sp : list comp) :
+    Forall (fun c => speq e N (f c) [c]) sp -> speq e N (flat_map f sp) sp.
+  Proof.
+    induction 1 as [|c sp Hc _ IH]; [apply speq_refl|]. simpl.
+    apply (speq_app e N (f c) [c] (flat_map f sp) sp); assumption.
+  Qed.
+
+  Lemma non_adj_comp_ok e N c : rok N c -> speq e N (non_adj_comp c) [c].
+  Proof.
+    induction c as [m1 m2 v cv|m v|m v|ms|sw|m k V|sp m1 m2 hin hout IH] using comp_ind';
+      intros Hok; try apply speq_refl.
+    - inversion Hok; subst. apply non_adj_bs; assumption.
+    - inversion Hok as [| | | | | |? ? ? ? ? Hall Hspan]; subst.
+      change (non_adj_comp (Group sp m1 m2 hin hout)) with [Group (flat_map non_adj_comp sp) m1 m2 hin hout].
+      intros st Hst.
+      change (steq (cadd e (Group (flat_map non_adj_comp sp) m1 m2 hin hout) st)
+                   (cadd e (Group sp m1 m2 hin hout) st)).
+      rewrite !cadd_group.
+      apply (flat_map_speq e N); [|exact Hst].
+      rewrite Forall_forall in *. intros x Hx. apply IH; [exact Hx|apply Hall, Hx].
+  Qed.
+
+  (* T1 non_adj_preserves (full) *)
+  Theorem non_adj_preserves e N (sp : list comp) :
+    Forall (rok N) sp -> speq e N (non_adj_spec sp) sp.
+  Proof.
+    intros H. apply flat_map_speq. eapply Forall_impl; [|exact H]. intros c. apply non_adj_comp_ok.
+  Qed.
+
+  (* T1 non_adj_post: afterwards every beam splitter, also inside groups, is on adjacent modes *)
+  Inductive adj_ok : comp -> Prop :=
+  | adj_bs m1 m2 v cv : m1 + 1 = m2 \/ m2 + 1 = m1 -> adj_ok (BS m1 m2 v cv)
+  | adj_ps m v : adj_ok (PS m v)
+  | adj_loss m v : adj_ok (LossC m v)
+  | adj_bar ms : adj_ok (Barrier ms)
+  | adj_sw sw : adj_ok (Swaps sw)
+  | adj_u m k V : adj_ok (UMat m k V)
+  | adj_group sp m1 m2 hin hout : Forall adj_ok sp -> adj_ok (Group sp m1 m2 hin hout).
+
+  Lemma Forall_flat_map' {A B} (P : B -> Prop) (f : A -> list B) l :
+    Forall (fun a => Forall P (f a)) l -> Forall P (flat_map f l).
+  Proof. induction 1; simpl; [constructor|]. apply Forall_app. split; assumption. Qed.
+
+  Lemma non_adj_comp_post c : Forall adj_ok (non_adj_comp c).
+  Proof.
+    induction c as [m1 m2 v cv|m v|m v|ms|sw|m k V|sp m1 m2 hin hout IH] using comp_ind'.
+    2-6: repeat constructor.
+    - unfold non_adj_comp. destruct (adjacent m1 m2) eqn:Ha.
+      + constructor; [|constructor]. constructor. apply adjacent_spec. exact Ha.
+      + destruct (m2 <? m1); repeat constructor; lia.
+    - change (non_adj_comp (Group sp m1 m2 hin hout)) with [Group (flat_map non_adj_comp sp) m1 m2 hin hout].
+      constructor; [|constructor]. constructor. apply Forall_flat_map'. exact IH.
+  Qed.
+
+  Theorem non_adj_post (sp : list comp) : Forall adj_ok (non_adj_spec sp).
+  Proof. apply Forall_flat_map'. apply Forall_forall. intros c _. apply non_adj_comp_post. Qed.
+
+  (* ====================================================================== *)
+  (* Part 6: unpack_groups, _freeze_params, preservation of [rok]           *)
+  (* ====================================================================== *)
+  (* T1 unpack_preserves: literally the same compiled state *)
+  Theorem unpack_cadd_list e (sp : list comp) st :
+    cadd_list e (unpack_spec sp) st = cadd_list e sp st.
   Proof.
     revert st. induction sp as [|c sp IH]; intros st; [reflexivity|].
     unfold unpack_spec in *. simpl flat_map. rewrite cadd_list_app, cadd_list_cons, IH.
     f_equal. destruct c; try reflexivity. symmetry. apply cadd_group.
+  Qed.
+
+  (* groups are never nested (Circuit.add unpacks what it groups); with nesting the Python
+     "while" would not terminate, so this is the guard of the postcondition *)
+  Definition no_nested (sp : list comp) : Prop :=
+    Forall (fun c => match c with
+                     | Group g _ _ _ _ => Forall (fun x => is_group x = false) g
+                     | _ => True
+                     end) sp.
+
+  Theorem unpack_no_group (sp : list comp) :
+    no_nested sp -> Forall (fun c => is_group c = false) (unpack_spec sp).
+  Proof.
+    unfold no_nested, unpack_spec. induction 1 as [|c sp Hc _ IH]; simpl; [constructor|].
+    apply Forall_app. split; [|exact IH]. destruct c; try (constructor; [reflexivity|constructor]). exact Hc.
+  Qed.
+
+  Lemma unpack_rok N (sp : list comp) : Forall (rok N) sp -> Forall (rok N) (unpack_spec sp).
+  Proof.
+    unfold unpack_spec. induction 1 as [|c sp Hc _ IH]; simpl; [constructor|].
+    apply Forall_app. split; [|exact IH]. destruct Hc; try (constructor; [constructor; assumption|constructor]).
+    assumption.
+  Qed.
+
+  (* ---- frozen copies ---- *)
+  Theorem freeze_cadd e e' c : forall st, cadd e' (freeze_comp e c) st = cadd e c st.
+  Proof.
+    induction c as [m1 m2 v cv|m v|m v|ms|sw|m k V|sp m1 m2 hin hout IH] using comp_ind';
+      intros st; try reflexivity.
+    change (freeze_comp e (Group sp m1 m2 hin hout)) with (Group (map (freeze_comp e) sp) m1 m2 hin hout).
+    rewrite !cadd_group. revert st. induction IH as [|c sp Hc _ IHsp]; intros st; [reflexivity|].
+    simpl map. rewrite !cadd_list_cons, Hc. apply IHsp.
+  Qed.
+
+  Theorem freeze_cadd_list e e' (sp : list comp) st :
+    cadd_list e' (freeze_spec e sp) st = cadd_list e sp st.
+  Proof.
+    revert st. induction sp as [|c sp IH]; intros st; [reflexivity|].
+    unfold freeze_spec in *. simpl map. rewrite !cadd_list_cons, freeze_cadd. apply IH.
+  Qed.
+
+  Fixpoint has_ref (c : comp) : bool :=
+    match c with
+    | BS _ _ (Ref _) _ => true
+    | PS _ (Ref _) => true
+    | LossC _ (Ref _) => true
+    | Group sp _ _ _ _ => existsb has_ref sp
+    | _ => false
+    end.
+
+  Theorem freeze_no_ref e c : has_ref (freeze_comp e c) = false.
+  Proof.
+    induction c as [m1 m2 v cv|m v|m v|ms|sw|m k V|sp m1 m2 hin hout IH] using comp_ind'; try reflexivity.
+    change (freeze_comp e (Group sp m1 m2 hin hout)) with (Group (map (freeze_comp e) sp) m1 m2 hin hout).
+    simpl. induction IH as [|c sp Hc _ IHsp]; [reflexivity|]. simpl. rewrite Hc. exact IHsp.
+  Qed.
+
+  Lemma freeze_cmodes e c : cmodes (freeze_comp e c) = cmodes c.
+  Proof.
+    induction c as [m1 m2 v cv|m v|m v|ms|sw|m k V|sp m1 m2 hin hout IH] using comp_ind'; try reflexivity.
+    change (freeze_comp e (Group sp m1 m2 hin hout)) with (Group (map (freeze_comp e) sp) m1 m2 hin hout).
+    simpl. induction IH as [|c sp Hc _ IHsp]; [reflexivity|]. simpl. rewrite Hc. f_equal. exact IHsp.
+  Qed.
+
+  Lemma freeze_rok e N c : rok N c -> rok N (freeze_comp e c).
+  Proof.
+    induction c as [m1 m2 v cv|m v|m v|ms|sw|m k V|sp m1 m2 hin hout IH] using comp_ind';
+      intros H; inversion H; subst; try (constructor; assumption).
+    change (freeze_comp e (Group sp m1 m2 hin hout)) with (Group (map (freeze_comp e) sp) m1 m2 hin hout).
+    constructor.
+    - rewrite Forall_forall in *. intros y Hy. apply in_map_iff in Hy as (x & <- & Hx). apply IH; auto.
+    - intros m Hm. match goal with Hs : forall m, In m (flat_map cmodes sp) -> _ |- _ => apply Hs end.
+      apply in_flat_map in Hm as (y & Hy & Hm). apply in_map_iff in Hy as (x & <- & Hx).
+      rewrite freeze_cmodes in Hm. apply in_flat_map. exists x. split; assumption.
+  Qed.
+
+  Lemma freeze_spec_rok e N (sp : list comp) : Forall (rok N) sp -> Forall (rok N) (freeze_spec e sp).
+  Proof.
+    intros H. unfold freeze_spec. rewrite Forall_forall in *. intros y Hy.
+    apply in_map_iff in Hy as (x & <- & Hx). apply freeze_rok, H, Hx.
+  Qed.
+
+  (* ---- remove_non_adjacent_bs keeps [rok]: the new components stay between the old modes ---- *)
+  Lemma non_adj_triple_modes N lo hi a1 a2 (v : val (K:=K)) cv m :
+    lo < hi -> hi < N -> lo <= a1 <= hi -> lo <= a2 <= hi ->
+    In m (flat_map cmodes [Swaps (non_adj_swaps lo hi); BS a1 a2 v cv; Swaps (flip_dict (non_adj_swaps lo hi))]) ->
+    lo <= m <= hi.
+  Proof.
+    intros H HN H1 H2 Hm. pose proof (non_adj_wf N lo hi H HN) as Hwf.
+    rewrite flip_dict_inv in Hm by apply Hwf. simpl in Hm. rewrite app_nil_r in Hm.
+    rewrite inv_dict_keys in Hm.
+    assert (Hk : forall x, In x (dkeys (non_adj_swaps lo hi)) -> lo <= x <= hi).
+    { intros x Hx. rewrite non_adj_keys in Hx by exact H. apply in_seq in Hx. lia. }
+    apply in_app_or in Hm as [Hm|[<-|[<-|Hm]]]; try lia; [apply Hk, Hm|].
+    apply Hk. destruct Hwf as (_ & _ & Hkv & _). apply Hkv, Hm.
+  Qed.
+
+  Lemma non_adj_modes N c :
+    rok N c -> forall m, In m (flat_map cmodes (non_adj_comp c)) ->
+    exists a b, In a (cmodes c) /\ In b (cmodes c) /\ a <= m <= b.
+  Proof.
+    induction c as [m1 m2 v cv|m0 v|m0 v|ms|sw|m0 k V|sp m1 m2 hin hout IH] using comp_ind';
+      intros Hok m Hm;
+      try solve [simpl in Hm; rewrite ?app_nil_r in Hm; exists m, m; repeat split; simpl; auto; tauto].
+    - inversion Hok; subst. destruct (adjacent m1 m2) eqn:Ha.
+      { unfold non_adj_comp in Hm. rewrite Ha in Hm. simpl in Hm.
+        exists m, m. repeat split; simpl; try tauto; lia. }
+      destruct (lt_dec m1 m2) as [Hlt|Hge].
+      + rewrite non_adj_comp_lt in Hm by assumption. destruct (mid_bounds m1 m2 Hlt).
+        apply (non_adj_triple_modes N) in Hm; try lia.
+        exists m1, m2. simpl. repeat split; auto; lia.
+      + assert (Hlt : m2 < m1) by lia. rewrite non_adj_comp_gt in Hm by assumption.
+        destruct (mid_bounds m2 m1 Hlt).
+        apply (non_adj_triple_modes N) in Hm; try lia.
+        exists m2, m1. simpl. repeat split; auto; lia.
+    - inversion Hok as [| | | | | |? ? ? ? ? Hall Hspan]; subst.
+      change (non_adj_comp (Group sp m1 m2 hin hout)) with [Group (flat_map non_adj_comp sp) m1 m2 hin hout] in Hm.
+      simpl in Hm. rewrite app_nil_r in Hm.
+      apply in_flat_map in Hm as (y & Hy & Hm). apply in_flat_map in Hy as (x & Hx & Hy).
+      rewrite Forall_forall in IH, Hall.
+      destruct (IH x Hx (Hall x Hx) m) as (a & b & Ha & Hb & Hab).
+      { apply in_flat_map. exists y. split; assumption. }
+      exists a, b. simpl. repeat split; try lia; apply in_flat_map; exists x; split; assumption.
+  Qed.
+
+  Lemma non_adj_comp_rok N c : rok N c -> Forall (rok N) (non_adj_comp c).
+  Proof.
+    induction c as [m1 m2 v cv|m0 v|m0 v|ms|sw|m0 k V|sp m1 m2 hin hout IH] using comp_ind';
+      intros Hok; try (constructor; [exact Hok|constructor]).
+    - inversion Hok; subst. destruct (adjacent m1 m2) eqn:Ha.
+      { unfold non_adj_comp. rewrite Ha. constructor; [exact Hok|constructor]. }
+      destruct (lt_dec m1 m2) as [Hlt|Hge].
+      + rewrite non_adj_comp_lt by assumption. destruct (mid_bounds m1 m2 Hlt).
+        pose proof (non_adj_wf N m1 m2 Hlt ltac:(lia)) as Hwf.
+        rewrite flip_dict_inv by apply Hwf.
+        constructor; [constructor; apply wf_swaps_ok, Hwf|].
+        constructor; [constructor; lia|].
+        constructor; [constructor; apply wf_swaps_ok, wf_swaps_inv, Hwf|constructor].
+      + assert (Hlt : m2 < m1) by lia. rewrite non_adj_comp_gt by assumption. destruct (mid_bounds m2 m1 Hlt).
+        pose proof (non_adj_wf N m2 m1 Hlt ltac:(lia)) as Hwf.
+        rewrite flip_dict_inv by apply Hwf.
+        constructor; [constructor; apply wf_swaps_ok, Hwf|].
+        constructor; [constructor; lia|].
+        constructor; [constructor; apply wf_swaps_ok, wf_swaps_inv, Hwf|constructor].
+    - inversion Hok as [| | | | | |? ? ? ? ? Hall Hspan]; subst.
+      change (non_adj_comp (Group sp m1 m2 hin hout)) with [Group (flat_map non_adj_comp sp) m1 m2 hin hout].
+      constructor; [|constructor]. constructor.
+      + apply Forall_flat_map'. rewrite Forall_forall in *. intros x Hx. apply IH; auto.
+      + intros m Hm. apply in_flat_map in Hm as (y & Hy & Hm). apply in_flat_map in Hy as (x & Hx & Hy).
+        rewrite Forall_forall in Hall.
+        destruct (non_adj_modes N x (Hall x Hx) m) as (a & b & Ha & Hb & Hab).
+        { apply in_flat_map. exists y. split; assumption. }
+        assert (m1 <= a <= m2) by (apply Hspan, in_flat_map; exists x; split; assumption).
+        assert (m1 <= b <= m2) by (apply Hspan, in_flat_map; exists x; split; assumption). lia.
+  Qed.
+
+  Lemma non_adj_rok N (sp : list comp) : Forall (rok N) sp -> Forall (rok N) (non_adj_spec sp).
+  Proof.
+    intros H. apply Forall_flat_map'. eapply Forall_impl; [|exact H]. intros c. apply non_adj_comp_rok.
+  Qed.
+
+  (* what Circuit.bs / mode_swaps / ... record (CompileP.wf) satisfies [rok] as soon as the
+     components of every group lie inside the group's span *)
+  Inductive span_ok : comp -> Prop :=
+  | span_group sp m1 m2 hin hout :
+      Forall span_ok sp -> (forall m, In m (flat_map cmodes sp) -> m1 <= m <= m2) ->
+      span_ok (Group sp m1 m2 hin hout)
+  | span_bs m1 m2 v cv : span_ok (BS m1 m2 v cv)
+  | span_ps m v : span_ok (PS m v)
+  | span_loss m v : span_ok (LossC m v)
+  | span_bar ms : span_ok (Barrier ms)
+  | span_sw sw : span_ok (Swaps sw)
+  | span_u m k V : span_ok (UMat m k V).
+
+  Lemma wf_rok e N c : wf (o:=o) e N c -> span_ok c -> rok N c.
+  Proof.
+    induction c as [m1 m2 v cv|m0 v|m0 v|ms|sw|m0 k V|sp m1 m2 hin hout IH] using comp_ind';
+      intros Hwf Hsp; inversion Hwf; subst; try (constructor; assumption).
+    - constructor. apply wf_swaps_ok. assumption.
+    - inversion Hsp; subst. constructor; [|assumption].
+      rewrite Forall_forall in *. intros x Hx. apply IH; auto.
+  Qed.
+
+  (* ====================================================================== *)
+  (* Part 7: the Circuit-level rewrites, singly and in any sequence          *)
+  (* ====================================================================== *)
+  Inductive rw : Type := RUnpack | RCompress | RNonAdj | RCopy | RFreeze.
+
+  Definition apply_rw (e : env (K:=K)) (r : rw) (c : circ) : circ :=
+    match r with
+    | RUnpack => unpack_groups c
+    | RCompress => compress_circ c
+    | RNonAdj => non_adj_circ c
+    | RCopy => copy_circ c
+    | RFreeze => copy_frozen e c
+    end.
+
+  Definition circ_ok (c : circ) : Prop := Forall (rok (c_n c)) (c_spec c).
+
+  (* n_modes, heralds, input size unchanged; same compile outcome and same U_full *)
+  Definition same_circ (e : env (K:=K)) (c c' : circ) : Prop :=
+    c_n c' = c_n c /\ c_in c' = c_in c /\ c_out c' = c_out c /\ input_modes c' = input_modes c /\
+    steq (build o e c') (build o e c).
+
+  Lemma build_steq e (c c' : circ) :
+    c_n c' = c_n c -> speq e (c_n c) (c_spec c') (c_spec c) -> steq (build o e c') (build o e c).
+  Proof.
+    intros Hn H. unfold build. rewrite Hn.
+    specialize (H (Ok (c_n c, mid co)) (le_n _)).
+    destruct (cadd_list e (c_spec c') (Ok (c_n c, mid co))) as [[n1 U1]|x1],
+             (cadd_list e (c_spec c) (Ok (c_n c, mid co))) as [[n2 U2]|x2]; simpl in *; try contradiction; auto.
+  Qed.
+
+  Theorem rewrite_preserves e r c :
+    circ_ok c -> same_circ e c (apply_rw e r c) /\ circ_ok (apply_rw e r c).
+  Proof.
+    intros Hok. unfold same_circ, circ_ok. destruct r; simpl.
+    - (* unpack_groups *)
+      repeat split; try reflexivity; [|apply unpack_rok, Hok].
+      apply build_steq; [reflexivity|]. intros st _. simpl. rewrite unpack_cadd_list. apply steq_refl.
+    - repeat split; try reflexivity; [|apply compress_rok, Hok].
+      apply build_steq; [reflexivity|]. apply compress_preserves, Hok.
+    - repeat split; try reflexivity; [|apply non_adj_rok, Hok].
+      apply build_steq; [reflexivity|]. apply non_adj_preserves, Hok.
+    - repeat split; try reflexivity; [apply steq_refl|exact Hok].
+    - repeat split; try reflexivity; [|apply freeze_spec_rok, Hok].
+      apply build_steq; [reflexivity|]. intros st _. simpl. rewrite freeze_cadd_list. apply steq_refl.
+  Qed.
+
+  Theorem rewrites_preserve e (rs : list rw) : forall c,
+    circ_ok c -> same_circ e c (fold_left (fun c r => apply_rw e r c) rs c) /\
+                 circ_ok (fold_left (fun c r => apply_rw e r c) rs c).
+  Proof.
+    induction rs as [|r rs IH]; intros c Hok; simpl.
+    - split; [|exact Hok]. repeat split; try reflexivity. apply steq_refl.
+    - destruct (rewrite_preserves e r c Hok) as [(H1 & H2 & H3 & H4 & H5) Hok'].
+      destruct (IH _ Hok') as [(G1 & G2 & G3 & G4 & G5) Hok'']. split; [|exact Hok''].
+      repeat split; try congruence. eapply steq_trans; eassumption.
+  Qed.
+
+  (* a frozen copy does not depend on later parameter values *)
+  Theorem frozen_constant e e' c : build o e' (copy_frozen e c) = build o e c.
+  Proof. unfold build, copy_frozen. simpl. rewrite freeze_cadd_list. reflexivity. Qed.
+
+  (* ---- the pinned compress_mode_swaps (finding N5) is wrong ---- *)
+  (* where a photon entering mode i leaves, following only the mode swaps *)
+  Definition net_perm (sp : list comp) (i : nat) : nat :=
+    fold_left (fun x c => match c with Swaps sw => swap_fun sw x | _ => x end) sp i.
+
+  Definition n5_witness (v : val (K:=K)) : list comp :=
+    [Swaps [(0, 1); (1, 0)]; PS 2 v; Swaps [(2, 3); (3, 2)]; Swaps [(0, 1); (1, 0)]].
+
+  Theorem compress_pinned_refuted v :
+    net_perm (n5_witness v) 0 = 0 /\ net_perm (compress_pinned (n5_witness v)) 0 = 1 /\
+    net_perm (compress_spec (n5_witness v)) 0 = 0.
+  Proof. repeat split; reflexivity. Qed.
+
+  (* ---- a spec that satisfies the hypotheses and on which every rewrite does something ---- *)
+  Lemma wf_swaps_transp N a b : a < N -> b < N -> a <> b -> wf_swaps N [(a, b); (b, a)].
+  Proof.
+    intros Ha Hb Hne. unfold wf_swaps. simpl. repeat split.
+    - constructor; [simpl; intuition|]. constructor; [simpl; intuition|constructor].
+    - constructor; [simpl; intuition|]. constructor; [simpl; intuition|constructor].
+    - intuition.
+    - intuition.
+    - intros k [<-|[<-|[]]]; assumption.
+  Qed.
+
+  Definition example_spec (v : val (K:=K)) : list comp :=
+    [Swaps [(0, 1); (1, 0)]; PS 2 v; BS 0 3 v Rx;
+     Group [BS 3 1 v Hv; Swaps [(1, 2); (2, 1)]] 1 3 [] [];
+     Swaps [(2, 3); (3, 2)]; Swaps [(0, 1); (1, 0)]].
+
+  Lemma example_rok v : Forall (rok 4) (example_spec v).
+  Proof.
+    unfold example_spec.
+    assert (Hs : forall a b, a < 4 -> b < 4 -> a <> b -> rok 4 (Swaps (K:=K) [(a, b); (b, a)])).
+    { intros a b Ha Hb Hne. constructor. apply wf_swaps_ok, wf_swaps_transp; assumption. }
+    constructor; [apply Hs; lia|].
+    constructor; [constructor|].
+    constructor; [constructor; lia|].
+    constructor.
+    { constructor.
+      - constructor; [constructor; lia|]. constructor; [apply Hs; lia|constructor].
+      - simpl. intros m Hm. intuition lia. }
+    constructor; [apply Hs; lia|].
+    constructor; [apply Hs; lia|constructor].
+  Qed.
+
+  Lemma example_effects v :
+    length (compress_spec (example_spec v)) = 5 /\ length (non_adj_spec (example_spec v)) = 8 /\
+    length (unpack_spec (example_spec v)) = 7 /\ no_nested (example_spec v).
+  Proof. repeat split; try reflexivity. unfold no_nested, example_spec. repeat constructor. Qed.
+
+  (* ---- packaged statements for Properties/C09.v ---- *)
+  Theorem freeze_closed e e' (c : circ) :
+    Forall (fun x => has_ref x = false) (c_spec (copy_frozen e c)) /\
+    build o e' (copy_frozen e c) = build o e c.
+  Proof.
+    split; [|apply frozen_constant]. unfold copy_frozen, freeze_spec. simpl.
+    apply Forall_forall. intros x Hx. apply in_map_iff in Hx as (y & <- & _). apply freeze_no_ref.
+  Qed.
+
+  Theorem non_adj_dictionary N lo hi :
+    lo < hi -> hi < N ->
+    wf_swaps N (non_adj_swaps lo hi) /\
+    swap_fun (non_adj_swaps lo hi) lo = non_adj_mid lo hi /\
+    swap_fun (non_adj_swaps lo hi) hi = non_adj_mid lo hi + 1 /\
+    flip_dict (non_adj_swaps lo hi) = inv_dict (non_adj_swaps lo hi).
+  Proof.
+    intros H HN. pose proof (non_adj_wf N lo hi H HN) as Hwf.
+    repeat split; try apply Hwf; [apply non_adj_lo, H|apply non_adj_hi, H|apply flip_dict_inv, Hwf].
+  Qed.
+
+  Theorem complete_is_bijection N sw :
+    wf_swaps N sw ->
+    (forall a b, swap_fun sw a = swap_fun sw b -> a = b) /\ (forall k, exists k', swap_fun sw k' = k).
+  Proof.
+    intros H. pose proof (wf_swaps_perm_on N sw H) as Hp. split.
+    - intros a b. apply (perm_on_inj N), Hp.
+    - intros k. apply (perm_on_surj N), Hp.
+  Qed.
+
+  (* ---- N5 at the level of U_full: the pinned function changes the compiled matrix ---- *)
+  Let RK := sr_ring (o:=o).
+  Add Ring Kr9 : RK.
+
+  Lemma n5_witness_rok v : Forall (rok 4) (n5_witness v).
+  Proof.
+    assert (Hs : forall a b, a < 4 -> b < 4 -> a <> b -> rok 4 (Swaps (K:=K) [(a, b); (b, a)])).
+    { intros a b Ha Hb Hne. constructor. apply wf_swaps_ok, wf_swaps_transp; assumption. }
+    unfold n5_witness. constructor; [apply Hs; lia|]. constructor; [constructor|].
+    constructor; [apply Hs; lia|]. constructor; [apply Hs; lia|constructor].
+  Qed.
+
+  Theorem compress_pinned_changes_U (e : env (K:=K)) (x : triple (K:=K)) :
+    k1 o <> k0 o ->
+    ~ steq (cadd_list e (compress_pinned (n5_witness (Lit x))) (Ok (4, mid co)))
+           (cadd_list e (n5_witness (Lit x)) (Ok (4, mid co))).
+  Proof.
+    intros Hne H. apply Hne.
+    assert (E : compress_pinned (n5_witness (Lit x)) =
+                [Swaps []; PS 2 (Lit x); Swaps [(2, 3); (3, 2); (0, 1); (1, 0)]]) by reflexivity.
+    rewrite E in H. clear E.
+    cbv [Circuit.cadd_list fold_left n5_witness Circuit.cadd mul_in snd fst] in H.
+    destruct H as [_ H]. specialize (H 1 0 ltac:(lia) ltac:(lia)).
+    cbv in H. injection H as H1 _.
+    fold (kadd o) (kmul o) (ksub o) (kopp o) (k0 o) (k1 o) in H1.
+    ring_simplify in H1. exact H1.
+  Qed.
+
+  (* ---- groups stay un-nested under every rewrite, so "no Group remains" holds for an
+     unpack_groups at the end of any sequence of rewrites ---- *)
+  Definition nn (c : comp) : Prop :=
+    match c with
+    | Group g _ _ _ _ => Forall (fun x => is_group x = false) g
+    | _ => True
+    end.
+
+  Lemma no_nested_nn (sp : list comp) : no_nested sp <-> Forall nn sp.
+  Proof. reflexivity. Qed.
+
+  Lemma compress_outer_forall (P : comp -> Prop) r :
+    (forall sw, P (Swaps sw)) -> forall l i skip new,
+    Forall P l -> Forall P new -> Forall P (compress_outer r i l skip new).
+  Proof.
+    intros HP. induction l as [|c rest IH]; intros i skip new Hl Hnew; simpl; [exact Hnew|].
+    inversion Hl as [|? ? Hc Hrest]; subst. destruct (memb i skip); [apply IH; assumption|].
+    destruct c; try (apply IH; [assumption|apply Forall_app; split; [assumption|constructor; [assumption|constructor]]]).
+    destruct (compress_inner r (S i) rest [] sw skip) as [sw' ts'].
+    apply IH; [assumption|]. apply Forall_app. split; [assumption|]. constructor; [apply HP|constructor].
+  Qed.
+
+  Lemma non_adj_comp_nogroup (c : comp) :
+    is_group c = false -> Forall (fun x => is_group x = false) (non_adj_comp c).
+  Proof.
+    destruct c; intros H; try discriminate; try (constructor; [reflexivity|constructor]).
+    unfold non_adj_comp. destruct (adjacent m1 m2); [constructor; [reflexivity|constructor]|].
+    destruct (m2 <? m1); repeat constructor.
+  Qed.
+
+  Lemma non_adj_comp_nn (c : comp) : nn c -> Forall nn (non_adj_comp c).
+  Proof.
+    destruct c; intros H; try (constructor; [exact I|constructor]).
+    - unfold non_adj_comp. destruct (adjacent m1 m2); [constructor; [exact I|constructor]|].
+      destruct (m2 <? m1); repeat constructor.
+    - change (non_adj_comp (Group sp m1 m2 hin hout)) with [Group (flat_map non_adj_comp sp) m1 m2 hin hout].
+      constructor; [|constructor]. simpl. apply Forall_flat_map'. simpl in H.
+      eapply Forall_impl; [|exact H]. intros x. apply non_adj_comp_nogroup.
+  Qed.
+
+  Lemma freeze_is_group e (c : comp) : is_group (freeze_comp e c) = is_group c.
+  Proof. destruct c; reflexivity. Qed.
+
+  Lemma freeze_nn e c : nn c -> nn (freeze_comp e c).
+  Proof.
+    destruct c; intros H; try exact I.
+    change (freeze_comp e (Group sp m1 m2 hin hout)) with (Group (map (freeze_comp e) sp) m1 m2 hin hout).
+    simpl in *. rewrite Forall_forall in *. intros y Hy. apply in_map_iff in Hy as (x & <- & Hx).
+    rewrite freeze_is_group. apply H, Hx.
+  Qed.
+
+  Lemma rewrite_no_nested e r (c : circ) : no_nested (c_spec c) -> no_nested (c_spec (apply_rw e r c)).
+  Proof.
+    intros H. destruct r; simpl.
+    - (* unpack: nothing left to nest *)
+      pose proof (unpack_no_group _ H) as Hn. unfold no_nested.
+      eapply Forall_impl; [|exact Hn]. intros x Hx. destruct x; try exact I. discriminate.
+    - apply compress_outer_forall; [intros; exact I|exact H|constructor].
+    - apply Forall_flat_map'. eapply Forall_impl; [|exact H]. intros x. apply non_adj_comp_nn.
+    - exact H.
+    - unfold freeze_spec, no_nested in *. rewrite Forall_forall in *. intros y Hy.
+      apply in_map_iff in Hy as (x & <- & Hx). apply freeze_nn, H, Hx.
+  Qed.
+
+  Theorem rewrites_then_unpack_no_group e (rs : list rw) : forall (c : circ),
+    no_nested (c_spec c) ->
+    Forall (fun x => is_group x = false)
+           (c_spec (unpack_groups (fold_left (fun c r => apply_rw e r c) rs c))).
+  Proof.
+    induction rs as [|r rs IH]; intros c H; simpl fold_left.
+    - apply unpack_no_group, H.
+    - apply IH. apply rewrite_no_nested, H.
   Qed.
 End RewriteP.
